@@ -29,7 +29,6 @@ Proof.
   all: try (inversion H; subst; clear H; cbn; rewrite ?upd_length, ?map_length, ?swapD_ls, ?swapD_callers; auto; fail).
   all: try (inversion H; subst; clear H; cbn; rewrite ?upd_length;
             match goal with E : rstep _ _ = _ |- _ => rewrite (rstep_ls _ _ _ _ E), (rstep_callers _ _ _ _ E) end; auto; fail).
-  all: idtac "left".
 Qed.
 
 (* F3 *)
@@ -40,7 +39,14 @@ Proof.
   all: try (inversion H; subst; clear H; cbn; rewrite ?swapD_S; auto; fail).
   all: try (inversion H; subst; clear H; cbn;
             match goal with E : rstep _ _ = _ |- _ => rewrite (rstep_S _ _ _ _ E) end; auto; fail).
-  all: idtac "left2".
+Qed.
+
+(** the shutdown flag is never reset *)
+Lemma step_S_mono v s lb s' : step v s lb = Some s' -> gS s = true -> gS s' = true.
+Proof.
+  intros H HS. destruct lb; try (rewrite (step_S_other _ _ _ _ H); [exact HS|intros; discriminate]).
+  cbn [step] in H. unfold_steps H. break_step H.
+  all: inversion H; subst; clear H; cbn; rewrite ?swapD_S; auto.
 Qed.
 
 Definition l_open (l : listener) : bool := match l_pc l with LShut | LRel _ | LExited => false | _ => true end.
@@ -87,7 +93,6 @@ Proof.
   - eapply unreq_step; eauto.
 Qed.
 
-(** ** The chain of instances: inductive invariant *)
 Lemma nth_upd {A} (l : list A) i j x d :
   nth j (upd i x l) d = if Nat.eqb i j then (if Nat.ltb i (length l) then x else d) else nth j l d.
 Proof.
@@ -96,59 +101,119 @@ Proof.
   - rewrite IH. change (Nat.ltb (S i) (S (length l))) with (Nat.ltb i (length l)). reflexivity.
 Qed.
 
-Definition past_spawn (n : nat) (p : ipc) : Prop := forall j, j < n -> spawned n p j = true.
+Lemma nth_error_lt {A} (l : list A) i x : nth_error l i = Some x -> i < length l.
+Proof. intros H. apply nth_error_Some. rewrite H. discriminate. Qed.
+
+Lemma kget_kset c c' v l : kget c' (kset c v l) = if Nat.eqb c c' then v else kget c' l.
+Proof.
+  unfold kget. revert c' l. induction c as [|c IH]; intros [|c'] [|a l]; cbn [kset nth Nat.eqb]; try reflexivity.
+  - destruct c'; reflexivity.
+  - rewrite IH. destruct (Nat.eqb c c'); [reflexivity|]. destruct c'; reflexivity.
+  - apply IH.
+Qed.
+
+Lemma step_init_mono v s lb s' : step v s lb = Some s' -> init_sent s = true -> init_sent s' = true.
+Proof.
+  intros H HS. destruct lb; cbn [step] in H; unfold_steps H; break_step H.
+  all: try (inversion H; subst; clear H; cbn; rewrite ?swapD_init; auto; fail).
+  all: try (inversion H; subst; clear H; cbn;
+            match goal with E : rstep _ _ = _ |- _ => rewrite (rstep_init _ _ _ _ E) end; auto; fail).
+Qed.
+
+Lemma step_callers_other v s lb s' : step v s lb = Some s' -> (forall k, lb <> SStep k) -> callers s' = callers s.
+Proof.
+  intros H Hn. destruct lb; cbn [step] in H; unfold_steps H; break_step H.
+  all: try (exfalso; eapply Hn; reflexivity).
+  all: try (inversion H; subst; clear H; cbn; rewrite ?swapD_callers; auto; fail).
+  all: try (inversion H; subst; clear H; cbn;
+            match goal with E : rstep _ _ = _ |- _ => rewrite (rstep_callers _ _ _ _ E) end; auto; fail).
+Qed.
+
+(** a caller that has returned stays returned *)
+Lemma step_done_stays s lb s' :
+  step repaired s lb = Some s' -> length (callers s) = 1 -> nth_error (callers s) 0 = Some SDone -> nth_error (callers s') 0 = Some SDone.
+Proof.
+  intros H Hl Hd. destruct lb; try (rewrite (step_callers_other _ _ _ _ H); [exact Hd|intros; discriminate]).
+  exfalso. cbn [step] in H. destruct k as [|k].
+  - rewrite Hd in H. discriminate.
+  - destruct (nth_error (callers s) (S k)) eqn:E; try discriminate. apply nth_error_lt in E. lia.
+Qed.
+
+(** ** The chain of instances: inductive invariant *)
+Definition has_sent (p : ipc) : bool := match p with PSpawn _ | PListen _ => false | _ => true end.
+Definition told (x : inst) : bool := i_msg x || i_recv x.
+Ltac cbn_inst := cbn [with_pc with_bnd with_ctl with_msg with_sd with_ka with_lw i_pc i_bnd i_ctl i_msg i_recv i_replied i_sd i_ka i_lw
+                      spawned told has_sent].
 
 Record wf (n : nat) (x : inst) : Prop := {
   wf_len : length (i_bnd x) = n;
   wf_ls : length (ls (i_sd x)) = n;
   wf_callers : length (callers (i_sd x)) = 1;
   wf_reach : reachable repaired (i_sd x);
-  wf_bnd : forall j, spawned n (i_pc x) j = true -> nth j (i_bnd x) false = true;
+  wf_bnd : forall j, spawned n (i_pc x) j = true -> nth j (i_bnd x) BNone = BListening;
   wf_S : gS (i_sd x) = true -> i_recv x = true;
-  wf_recv : (i_msg x || i_recv x) = true -> i_ctl x <> TNone;
+  wf_recv : told x = true -> i_ctl x <> TNone;
   wf_ctl : i_ctl x <> TNone -> i_pc x = PRunning;
-  wf_run : i_pc x = PRunning -> i_ctl x <> TNone
+  wf_run : i_pc x = PRunning -> i_ctl x <> TNone;
+  wf_nsp : i_ctl x <> TSpawned;
+  wf_closed : i_ctl x = TClosed -> init_sent (i_sd x) = true;
+  wf_replied : i_replied x = true -> caller_pc x = Some SDone /\ i_recv x = true;
+  wf_msg : i_msg x = true -> i_recv x = false /\ i_ctl x = TBound;
+  wf_ka : forall c, k_after (kget c (i_ka x)) <= 1 /\
+                    (k_after (kget c (i_ka x)) = 1 -> gS (i_sd x) = true /\ k_st (kget c (i_ka x)) <> KIdle);
+  wf_pl : forall j, i_pc x = PListen j -> j < n
+}.
+
+(** instance [a] (state [x]) and its successor (state [y]); [last]: the successor is the newest instance *)
+Record pairinv (a : nat) (x y : inst) (last : bool) : Prop := {
+  pi_run : i_pc x = PRunning;
+  pi_sent : told x = true -> has_sent (i_pc y) = true;
+  pi_wait : told x = true -> i_replied x = false -> i_pc y = PWait a /\ last = true;
+  pi_pwait : forall k, i_pc y = PWait k -> k = a /\ told x = true
 }.
 
 Record hinv (n : nat) (s : hstate) : Prop := {
   hi_np : np s = n;
   hi_first : exists x, nth_error (insts s) 0 = Some x /\ i_pc x = PRunning;
   hi_wf : forall i x, nth_error (insts s) i = Some x -> wf n x;
-  hi_old : forall i x, nth_error (insts s) i = Some x -> S i < length (insts s) ->
-           i_pc x = PRunning /\ i_ctl x <> TSpawned;
-  hi_succ : forall i x, nth_error (insts s) i = Some x -> (i_msg x || i_recv x) = true ->
-            exists y, nth_error (insts s) (S i) = Some y /\ past_spawn n (i_pc y);
+  hi_pair : forall a x y, nth_error (insts s) a = Some x -> nth_error (insts s) (S a) = Some y ->
+            pairinv a x y (Nat.eqb (S (S a)) (length (insts s)));
+  hi_last : forall x, nth_error (insts s) (pred (length (insts s))) = Some x -> told x = false;
   hi_path : forall k, path s = Some k ->
             S k = length (insts s) \/
-            (S (S k) = length (insts s) /\ exists y, nth_error (insts s) (S k) = Some y /\ i_ctl y = TNone)
+            (S (S k) = length (insts s) /\ exists y, nth_error (insts s) (S k) = Some y /\ i_ctl y = TNone);
+  hi_bindctl : forall i y, nth_error (insts s) i = Some y -> i_pc y = PBindCtl -> path s = None;
+  hi_served : forall y, nth_error (insts s) (pred (length (insts s))) = Some y -> i_ctl y = TBound ->
+              path s = Some (pred (length (insts s)))
 }.
+
+Lemma kget_nil c : kget c [] = kc0. Proof. unfold kget. destruct c; reflexivity. Qed.
 
 Lemma wf_new n : wf n (new_inst n).
 Proof.
   constructor; cbn.
-  - apply repeat_length.
-  - apply repeat_length.
-  - reflexivity.
-  - apply reach_init.
-  - intros j H. destruct j; discriminate.
-  - discriminate.
-  - discriminate.
-  - intros H; contradiction.
-  - discriminate.
+  all: try (apply repeat_length).
+  all: try reflexivity.
+  all: try (apply reach_init).
+  all: try discriminate.
+  all: try (intros; discriminate).
+  all: try (intros H; exfalso; apply H; reflexivity).
+  all: try (intros c; destruct c; (split; [cbv; lia|cbv; intros Hc; discriminate Hc])).
 Qed.
+
+Lemma nth_repeat {A} (x d : A) n j : j < n -> nth j (repeat x n) d = x.
+Proof. revert j; induction n; intros [|j] H; cbn; auto; try lia. apply IHn. lia. Qed.
 
 Lemma wf_up n : wf n (up_inst n).
 Proof.
   constructor; cbn.
-  - apply repeat_length.
-  - apply repeat_length.
-  - reflexivity.
-  - apply reach_init.
-  - intros j H. apply Nat.ltb_lt in H. revert j H. induction n; intros [|j] H; cbn; auto; try lia. apply IHn. lia.
-  - discriminate.
-  - discriminate.
-  - reflexivity.
-  - discriminate.
+  all: try (apply repeat_length).
+  all: try reflexivity.
+  all: try (apply reach_init).
+  all: try discriminate.
+  all: try (intros; discriminate).
+  all: try (intros c; destruct c; (split; [cbv; lia|cbv; intros Hc; discriminate Hc])).
+  intros j H. apply Nat.ltb_lt in H. apply nth_repeat; exact H.
 Qed.
 
 Lemma hinv_init n : hinv n (hinit n).
@@ -157,224 +222,548 @@ Proof.
   - reflexivity.
   - eexists; split; reflexivity.
   - intros [|i] x H; cbn in H; inversion H; subst; try apply wf_up. destruct i; discriminate.
-  - intros i x _ H. lia.
-  - intros [|i] x H; cbn in H; inversion H; subst; cbn; try discriminate. destruct i; discriminate.
+  - intros a x y _ H. destruct a; discriminate.
+  - intros x H. inversion H; subst. reflexivity.
   - intros k H. inversion H; subst. left. reflexivity.
+  - intros [|i] y H Hp; cbn in H; inversion H; subst; try discriminate. destruct i; discriminate.
+  - intros y _ _. reflexivity.
 Qed.
 
-Lemma nth_error_lt {A} (l : list A) i x : nth_error l i = Some x -> i < length l.
-Proof. intros H. apply nth_error_Some. rewrite H. discriminate. Qed.
+(** *** updating one instance *)
+Lemma hinv_len n s : hinv n s -> length (insts s) > 0.
+Proof. intros [_ (x & H & _) _ _ _ _ _ _]. apply nth_error_lt in H. lia. Qed.
+
+(** every instance but the newest has returned from [execute] *)
+Lemma hinv_old n s i x : hinv n s -> nth_error (insts s) i = Some x -> S i < length (insts s) -> i_pc x = PRunning.
+Proof.
+  intros Hinv Hx Hlt. destruct (nth_error (insts s) (S i)) as [y|] eqn:Hy; [|apply nth_error_None in Hy; lia].
+  exact (pi_run _ _ _ _ (hi_pair _ _ Hinv _ _ _ Hx Hy)).
+Qed.
 
 Lemma hinv_upd n s i x x' p' :
-  hinv n s -> nth_error (insts s) i = Some x ->
-  wf n x' ->
-  (i_pc x = PRunning -> i_pc x' = PRunning /\ (i_ctl x <> TSpawned -> i_ctl x' <> TSpawned)) ->
-  (past_spawn n (i_pc x) -> past_spawn n (i_pc x')) ->
-  ((i_msg x' || i_recv x') = true -> (i_msg x || i_recv x) = true \/
-       exists y, nth_error (insts s) (S i) = Some y /\ past_spawn n (i_pc y)) ->
-  ((p' = path s /\ (i_ctl x = TNone -> i_ctl x' = TNone)) \/ p' = None \/ (p' = Some i /\ S i = length (insts s))) ->
+  hinv n s -> nth_error (insts s) i = Some x -> wf n x' ->
+  (i = 0 -> i_pc x' = PRunning) ->
+  (forall a z, nth_error (insts s) a = Some z -> S a = i -> pairinv a z x' (Nat.eqb (S i) (length (insts s)))) ->
+  (forall y, nth_error (insts s) (S i) = Some y -> pairinv i x' y (Nat.eqb (S (S i)) (length (insts s)))) ->
+  (S i = length (insts s) -> told x' = false) ->
+  ((p' = path s /\ (i_ctl x = TNone -> i_ctl x' = TNone) /\ (i_pc x' = PBindCtl -> i_pc x = PBindCtl) /\
+    (i_ctl x' = TBound -> i_ctl x = TBound)) \/
+   (p' = None /\ (S i = length (insts s) -> i_ctl x' <> TBound) /\
+                 (forall y, S i <> length (insts s) -> nth_error (insts s) (pred (length (insts s))) = Some y -> i_ctl y <> TBound)) \/
+   (p' = Some i /\ S i = length (insts s) /\ i_pc x' <> PBindCtl)) ->
   hinv n {| np := np s; insts := upd i x' (insts s); path := p' |}.
 Proof.
-  intros [Hnp Hfirst Hwf Hold Hsucc Hpath] Hx Hwf' Hpc Hps Hmsg Hp.
+  intros Hinv Hx Hwf' H0 Hpred Hsucc Hlast Hp.
+  pose proof (hinv_len _ _ Hinv) as Hpos.
+  pose proof Hinv as [Hnp Hfirst Hwf Hpair Hlst Hpath Hbc Hsv].
   assert (Hlen : length (upd i x' (insts s)) = length (insts s)) by apply upd_length.
+  assert (Hi : i < length (insts s)) by (eapply nth_error_lt; eauto).
   constructor; cbn [np insts path]; try rewrite Hlen.
   - exact Hnp.
-  - destruct Hfirst as (x0 & H0 & Hpc0). rewrite nth_error_upd.
+  - destruct Hfirst as (x0 & Hx0 & Hpc0). rewrite nth_error_upd.
     destruct (Nat.eqb i 0) eqn:E.
-    + apply Nat.eqb_eq in E; subst. rewrite Hx. rewrite H0 in Hx. inversion Hx; subst.
-      eexists; split; [reflexivity|]. apply Hpc; assumption.
+    + apply Nat.eqb_eq in E. rewrite Hx. eexists; split; [reflexivity|]. auto.
     + eexists; split; eauto.
   - intros k y. rewrite nth_error_upd. destruct (Nat.eqb i k) eqn:E.
     + rewrite Hx. intros H; inversion H; subst. assumption.
     + apply Hwf.
-  - intros k y. rewrite nth_error_upd. destruct (Nat.eqb i k) eqn:E.
-    + apply Nat.eqb_eq in E; subst. rewrite Hx. intros H Hlt; inversion H; subst.
-      destruct (Hold _ _ Hx Hlt) as (Ha & Hb). destruct (Hpc Ha) as (Hc & Hd). split; auto.
-    + apply Hold.
-  - intros k y. rewrite !nth_error_upd. destruct (Nat.eqb i k) eqn:E.
-    + apply Nat.eqb_eq in E; subst. rewrite Hx. intros H Hm; inversion H; subst.
-      assert (Nat.eqb k (S k) = false) as -> by (apply Nat.eqb_neq; lia).
-      destruct (Hmsg Hm) as [Hm'|Hy]; [apply (Hsucc _ _ Hx Hm')|exact Hy].
-    + intros Hk Hm. destruct (Hsucc _ _ Hk Hm) as (z & Hz & Hzp).
-      destruct (Nat.eqb i (S k)) eqn:E2.
-      * apply Nat.eqb_eq in E2; subst. rewrite Hx. rewrite Hz in Hx. inversion Hx; subst.
-        eexists; split; [reflexivity|]. apply Hps; assumption.
-      * eexists; split; eauto.
-  - intros k Hk. destruct Hp as [(Hp & Hc)|[Hp|(Hp & Hl)]]; subst p'; try discriminate.
+  - intros a z y. rewrite !nth_error_upd.
+    destruct (Nat.eqb_spec i a) as [Ea|Ea]; destruct (Nat.eqb_spec i (S a)) as [Eb|Eb].
+    + lia.
+    + subst a. rewrite Hx. intros Hz Hy. inversion Hz; subst z. apply Hsucc; exact Hy.
+    + rewrite Hx. intros Hz Hy. inversion Hy; subst y. rewrite <- Eb. apply Hpred; auto.
+    + apply Hpair.
+  - intros y. rewrite nth_error_upd. destruct (Nat.eqb i (pred (length (insts s)))) eqn:E.
+    + apply Nat.eqb_eq in E. rewrite Hx. intros H; inversion H; subst. apply Hlast. lia.
+    + apply Hlst.
+  - intros k Hk. destruct Hp as [(Hp & Hc & _ & _)|[(Hp & _)|(Hp & Hl & _)]]; subst p'; try discriminate.
     + destruct (Hpath _ Hk) as [H|(H & y & Hy & Hyc)]; [left; exact H|right]. split; [exact H|].
       rewrite nth_error_upd. destruct (Nat.eqb i (S k)) eqn:E.
       * apply Nat.eqb_eq in E; subst. rewrite Hx. rewrite Hy in Hx. inversion Hx; subst.
         eexists; split; [reflexivity|]. auto.
       * eexists; split; eauto.
     + inversion Hk; subst. left; exact Hl.
+  - intros a y. rewrite nth_error_upd. destruct (Nat.eqb i a) eqn:E.
+    + apply Nat.eqb_eq in E; subst a. rewrite Hx. intros H Hpc; inversion H; subst y.
+      destruct Hp as [(Hp & _ & Hb & _)|[(Hp & _)|(Hp & Hl & Hnb)]]; subst p'; auto.
+      * apply (Hbc _ _ Hx). auto.
+      * contradiction.
+    + apply Nat.eqb_neq in E. intros Hy Hpc.
+      destruct Hp as [(Hp & _)|[(Hp & _)|(Hp & Hl & _)]]; subst p'; auto.
+      * eapply Hbc; eauto.
+      * exfalso. assert (S a < length (insts s)) by (apply nth_error_lt in Hy; lia).
+        rewrite (hinv_old _ _ _ _ Hinv Hy H) in Hpc. discriminate.
+  - intros y. rewrite nth_error_upd. destruct (Nat.eqb i (pred (length (insts s)))) eqn:E.
+    + apply Nat.eqb_eq in E. rewrite Hx. intros H Hc; inversion H; subst y.
+      destruct Hp as [(Hp & _ & _ & Hb)|[(Hp & Hn & _)|(Hp & Hl & _)]]; subst p'.
+      * apply (Hsv x); [rewrite <- E; exact Hx|auto].
+      * exfalso. apply Hn; [lia|exact Hc].
+      * f_equal. lia.
+    + apply Nat.eqb_neq in E. intros Hy Hc.
+      destruct Hp as [(Hp & _)|[(Hp & _ & Hn)|(Hp & Hl & _)]]; subst p'.
+      * apply (Hsv y); auto.
+      * exfalso. eapply Hn; eauto. lia.
+      * lia.
 Qed.
 
-Lemma past_spawn_other n p : (forall j, p <> PSpawn j) -> past_spawn n p.
-Proof. intros H j Hj. destruct p; cbn; try (apply Nat.ltb_lt; exact Hj). exfalso; eapply H; reflexivity. Qed.
+Definition same_ctl (x x' : inst) : Prop :=
+  i_pc x' = i_pc x /\ i_ctl x' = i_ctl x /\ i_msg x' = i_msg x /\ i_recv x' = i_recv x /\ i_replied x' = i_replied x.
+
+Lemma pairinv_l a x x' y last :
+  i_pc x' = i_pc x -> told x' = told x -> (i_replied x = true -> i_replied x' = true) -> pairinv a x y last -> pairinv a x' y last.
+Proof.
+  intros Hp Ht Hrp [P1 P2 P3 P4].
+  constructor; rewrite ?Hp, ?Ht; auto.
+  intros H1 H2. apply P3; auto. destruct (i_replied x); auto. rewrite Hrp in H2; auto.
+Qed.
+
+Lemma same_told x x' : same_ctl x x' -> told x' = told x.
+Proof. intros (_ & _ & Hm & Hr & _). unfold told. rewrite Hm, Hr. reflexivity. Qed.
+
+Lemma pairinv_r a x y y' last : i_pc y' = i_pc y -> pairinv a x y last -> pairinv a x y' last.
+Proof. intros Hp [P1 P2 P3 P4]. constructor; rewrite ?Hp; auto. Qed.
+
+Lemma hinv_inert n s i x x' p' :
+  hinv n s -> nth_error (insts s) i = Some x -> wf n x' -> same_ctl x x' ->
+  (p' = path s \/ (p' = None /\ forall y, nth_error (insts s) (pred (length (insts s))) = Some y -> i_ctl y <> TBound)) ->
+  hinv n {| np := np s; insts := upd i x' (insts s); path := p' |}.
+Proof.
+  intros Hinv Hx Hwf' Hsame Hp. pose proof Hsame as (Hpc & Hc & Hm & Hr & Hrp).
+  pose proof (hinv_len _ _ Hinv) as Hpos.
+  apply (hinv_upd n s i x); auto.
+  - intros ->. rewrite Hpc. destruct (hi_first _ _ Hinv) as (x0 & Hx0 & Hp0). rewrite Hx in Hx0. inversion Hx0; subst. exact Hp0.
+  - intros a z Hz Ha. apply (pairinv_r a z x); auto. subst i. apply (hi_pair _ _ Hinv); auto.
+  - intros y Hy. apply (pairinv_l i x); auto; [apply same_told; auto|intros H1; rewrite Hrp; exact H1|apply (hi_pair _ _ Hinv); auto].
+  - intros Hl. unfold told. rewrite Hm, Hr. apply (hi_last _ _ Hinv). replace (pred (length (insts s))) with i by lia. exact Hx.
+  - destruct Hp as [Hp|(Hp & Hn)]; [left|right; left]; subst p'.
+    + rewrite Hpc, Hc. auto.
+    + split; auto. split.
+      * intros Hl. rewrite Hc. apply Hn. replace (pred (length (insts s))) with i by lia. exact Hx.
+      * intros y _ Hy. apply Hn; exact Hy.
+Qed.
+
+Lemma wf_sd n x lb sd' :
+  wf n x -> sd_gate x lb = true -> step repaired (i_sd x) lb = Some sd' -> wf n (with_sd x sd').
+Proof.
+  intros [W1 W2 W3 W4 W5 W6 W7 W8 W9 W10 W11 W12 W13 W14 W15] Hg Hs.
+  destruct (step_lengths _ _ _ _ Hs) as (L1 & L2).
+  constructor; cbn [with_sd i_pc i_bnd i_ctl i_msg i_recv i_replied i_sd i_ka i_lw]; auto; try congruence.
+  - eapply reach_step; eauto.
+  - intros HS. destruct lb; try (apply W6; rewrite <- HS; symmetry; eapply step_S_other; eauto; intros; discriminate).
+    exact Hg.
+  - intros Hc. eapply step_init_mono; eauto.
+  - intros Hr. destruct (W12 Hr) as (Hd & Hrv). split; auto. unfold caller_pc in *. cbn. eapply step_done_stays; eauto.
+  - intros c. destruct (W14 c) as (Ha & Hb). split; auto. intros H1. destruct (Hb H1) as (HS & Hk). split; auto.
+    eapply step_S_mono; eauto.
+Qed.
+
+Lemma wf_lw n x w : wf n x -> wf n (with_lw x w).
+Proof. intros [W1 W2 W3 W4 W5 W6 W7 W8 W9 W10 W11 W12 W13 W14 W15]. constructor; auto. Qed.
+
+Lemma wf_ka_upd n x c v :
+  wf n x -> (k_after v <= 1 /\ (k_after v = 1 -> gS (i_sd x) = true /\ k_st v <> KIdle)) -> wf n (with_ka x (kset c v (i_ka x))).
+Proof.
+  intros [W1 W2 W3 W4 W5 W6 W7 W8 W9 W10 W11 W12 W13 W14 W15] Hv. constructor; auto.
+  intros c'. cbn [with_ka i_ka i_sd]. rewrite kget_kset. destruct (Nat.eqb c c'); auto.
+Qed.
+
+(** while [shutdown()] of an instance is at the point where it removes the socket file, its successor is the newest
+    instance and waits for the reply *)
+Lemma told_unreplied_waits n s i x :
+  hinv n s -> nth_error (insts s) i = Some x -> told x = true -> i_replied x = false ->
+  exists y, nth_error (insts s) (S i) = Some y /\ i_pc y = PWait i /\ S (S i) = length (insts s).
+Proof.
+  intros Hinv Hx Ht Hr.
+  destruct (nth_error (insts s) (S i)) as [y|] eqn:Hy.
+  - destruct (pi_wait _ _ _ _ (hi_pair _ _ Hinv _ _ _ Hx Hy) Ht Hr) as (Hp & Hl). exists y. split; auto. split; auto.
+    apply Nat.eqb_eq; exact Hl.
+  - exfalso. apply nth_error_None in Hy. apply nth_error_lt in Hx as Hlt.
+    assert (Hi : i = pred (length (insts s))) by lia. rewrite Hi in Hx. rewrite (hi_last _ _ Hinv _ Hx) in Ht. discriminate.
+Qed.
+
+Lemma caller_moved_recv n x p : wf n x -> caller_pc x = Some p -> p <> SNew -> i_recv x = true.
+Proof.
+  intros Hw Hc Hn. apply (wf_S _ _ Hw). destruct (gS (i_sd x)) eqn:ES; auto. exfalso.
+  destruct (unreq_reachable _ (wf_reach _ _ Hw) ES) as (_ & Hcs & _).
+  unfold caller_pc in Hc. pose proof (forallb_nth _ _ _ _ Hcs Hc) as Hnew. destruct p; try discriminate. contradiction.
+Qed.
+
+Lemma sset_newest_waits n s i x :
+  hinv n s -> nth_error (insts s) i = Some x -> caller_pc x = Some SSet ->
+  exists y, nth_error (insts s) (S i) = Some y /\ i_pc y = PWait i /\ S (S i) = length (insts s).
+Proof.
+  intros Hinv Hx Hc. pose proof (hi_wf _ _ Hinv _ _ Hx) as Hw.
+  assert (Hr : i_recv x = true) by (eapply caller_moved_recv; eauto; discriminate).
+  apply (told_unreplied_waits n s i x); auto.
+  - unfold told. rewrite Hr. apply orb_true_r.
+  - destruct (i_replied x) eqn:E; auto. destruct (wf_replied _ _ Hw E) as (Hd & _). rewrite Hd in Hc. discriminate.
+Qed.
+
+Lemma not_running_no_ctl n x : wf n x -> i_pc x <> PRunning -> i_ctl x = TNone.
+Proof. intros Hw Hp. destruct (i_ctl x) eqn:E; auto; exfalso; apply Hp; apply (wf_ctl _ _ Hw); rewrite E; discriminate. Qed.
+
+Lemma newest_of_not_running n s i x :
+  hinv n s -> nth_error (insts s) i = Some x -> i_pc x <> PRunning -> S i = length (insts s) /\ i <> 0.
+Proof.
+  intros Hinv Hx Hp. split.
+  - destruct (Nat.eq_dec (S i) (length (insts s))); auto. exfalso. apply Hp. apply (hinv_old n s i x); auto.
+    apply nth_error_lt in Hx. lia.
+  - intros ->. destruct (hi_first _ _ Hinv) as (x0 & H0 & Hp0). rewrite Hx in H0. inversion H0; subst. contradiction.
+Qed.
+
+Lemma no_succ_of_newest {A} (l : list A) i : S i = length l -> nth_error l (S i) = None.
+Proof. intros H. apply nth_error_None. lia. Qed.
+
+(** a step of the start-up program that leaves the path alone *)
+Lemma hinv_main_step n s i x x' :
+  hinv n s -> nth_error (insts s) i = Some x -> i_pc x <> PRunning -> wf n x' ->
+  i_ctl x' = i_ctl x -> told x' = told x -> i_pc x' <> PRunning ->
+  (has_sent (i_pc x) = true -> has_sent (i_pc x') = true) ->
+  (forall k, i_pc x' = PWait k -> i_pc x = PWait k) ->
+  (forall k, i_pc x = PWait k -> i_pc x' = PWait k \/ exists z, nth_error (insts s) k = Some z /\ i_replied z = true) ->
+  (i_pc x' = PBindCtl -> i_pc x = PBindCtl) ->
+  hinv n (set_inst s i x').
+Proof.
+  intros Hinv Hx Hnr Hwf' Hc Ht Hnr' C1 C2 C3 C4.
+  destruct (newest_of_not_running _ _ _ _ Hinv Hx Hnr) as (Hl & Hi0).
+  apply (hinv_upd n s i x); auto.
+  - intros E. contradiction.
+  - intros a z Hz Ha. subst i. pose proof (hi_pair _ _ Hinv _ _ _ Hz Hx) as [P1 P2 P3 P4]. rewrite Hl, Nat.eqb_refl in *.
+    constructor; auto.
+    + intros T R. destruct (P3 T R) as (Hp & _). split; auto. destruct (C3 _ Hp) as [H|(z0 & Hz0 & Hr0)]; auto.
+      rewrite Hz in Hz0. inversion Hz0; subst. congruence.
+  - intros y Hy. rewrite (no_succ_of_newest _ _ Hl) in Hy. discriminate.
+  - intros _. rewrite Ht. apply (hi_last _ _ Hinv). replace (pred (length (insts s))) with i by lia. exact Hx.
+  - left. split; auto. split; [rewrite Hc; auto|]. split; auto. rewrite Hc; auto.
+Qed.
+
+Lemma nth_error_snoc {A} (l : list A) x i y :
+  nth_error (l ++ [x]) i = Some y -> (i < length l /\ nth_error l i = Some y) \/ (i = length l /\ y = x).
+Proof.
+  intros H. destruct (Nat.ltb i (length l)) eqn:E.
+  - apply Nat.ltb_lt in E. rewrite nth_error_app1 in H; auto.
+  - apply Nat.ltb_ge in E. rewrite nth_error_app2 in H; auto.
+    destruct (i - length l) as [|d] eqn:Ed; cbn in H; [|destruct d; discriminate]. inversion H; subst. right. split; auto. lia.
+Qed.
 
 Lemma hinv_start n s x :
-  hinv n s -> nth_error (insts s) (pred (length (insts s))) = Some x -> is_up x = true ->
+  hinv n s -> nth_error (insts s) (pred (length (insts s))) = Some x -> is_running x = true ->
   hinv n (with_insts s (insts s ++ [new_inst (np s)])).
 Proof.
-  intros [Hnp Hfirst Hwf Hold Hsucc Hpath] Hx Hup.
-  assert (Hl : length (insts s) > 0) by (apply nth_error_lt in Hx; lia).
-  unfold is_up in Hup. destruct (i_pc x) eqn:Epc; try discriminate. destruct (i_ctl x) eqn:Ectl; try discriminate.
+  intros Hinv Hx Hup. pose proof (hinv_len _ _ Hinv) as Hpos.
+  pose proof Hinv as [Hnp Hfirst Hwf Hpair Hlst Hpath Hbc Hsv].
+  unfold is_running in Hup. destruct (i_pc x) eqn:Epc; try discriminate.
+  assert (Hctl : i_ctl x <> TNone) by (apply (wf_run _ _ (Hwf _ _ Hx)); exact Epc).
   constructor; cbn [np insts path with_insts]; try rewrite app_length; cbn [length].
   - exact Hnp.
   - destruct Hfirst as (x0 & H0 & Hpc0). exists x0. split; auto. rewrite nth_error_app1; auto.
-  - intros i y H. destruct (Nat.ltb i (length (insts s))) eqn:E.
-    + apply Nat.ltb_lt in E. rewrite nth_error_app1 in H; auto. eapply Hwf; eauto.
-    + apply Nat.ltb_ge in E. rewrite nth_error_app2 in H; auto.
-      destruct (i - length (insts s)) as [|d]; cbn in H; [|destruct d; discriminate]. inversion H; subst. apply wf_new.
-  - intros i y H Hlt. assert (i < length (insts s)) by lia. rewrite nth_error_app1 in H; auto.
-    destruct (Nat.eq_dec (S i) (length (insts s))) as [E|E].
-    + assert (i = pred (length (insts s))) by lia. subst i. rewrite Hx in H. inversion H; subst. split; auto. rewrite Ectl. discriminate.
-    + apply (Hold _ _ H). lia.
-  - intros i y H Hm. destruct (Nat.ltb i (length (insts s))) eqn:E.
-    + apply Nat.ltb_lt in E. rewrite nth_error_app1 in H; auto.
-      destruct (Hsucc _ _ H Hm) as (z & Hz & Hzp). exists z. split; auto.
-      rewrite nth_error_app1; auto. apply nth_error_lt in Hz. exact Hz.
-    + apply Nat.ltb_ge in E. rewrite nth_error_app2 in H; auto.
-      destruct (i - length (insts s)) as [|d]; cbn in H; [|destruct d; discriminate]. inversion H; subst. discriminate.
+  - intros i y H. destruct (nth_error_snoc _ _ _ _ H) as [(_ & H1)|(_ & ->)]; [eapply Hwf; eauto|rewrite Hnp; apply wf_new].
+  - intros a z y Hz Hy.
+    destruct (nth_error_snoc _ _ _ _ Hz) as [(La & Hz1)|(La & ->)]; destruct (nth_error_snoc _ _ _ _ Hy) as [(Lb & Hy1)|(Lb & ->)]; try lia.
+    + pose proof (Hpair _ _ _ Hz1 Hy1) as [P1 P2 P3 P4].
+      assert (Nat.eqb (S (S a)) (length (insts s) + 1) = false) as -> by (apply Nat.eqb_neq; lia).
+      constructor; auto. intros T R. destruct (P3 T R) as (Hp & Hl). apply Nat.eqb_eq in Hl. exfalso.
+      assert (S a = pred (length (insts s))) by lia. rewrite H, Hx in Hy1. inversion Hy1; subst. congruence.
+    + assert (a = pred (length (insts s))) by lia. subst a. rewrite Hx in Hz1. inversion Hz1; subst z.
+      pose proof (Hlst _ Hx) as Ht.
+      constructor; cbn; auto; try (intros; congruence).
+  - replace (pred (length (insts s) + 1)) with (length (insts s)) by lia. intros y H.
+    destruct (nth_error_snoc _ _ _ _ H) as [(L & _)|(_ & ->)]; [lia|reflexivity].
   - intros k Hk. right. destruct (Hpath _ Hk) as [H|(H & y & Hy & Hyc)].
     + split; [lia|]. exists (new_inst (np s)). split; [|reflexivity].
       rewrite nth_error_app2 by lia. rewrite H, Nat.sub_diag. reflexivity.
-    + exfalso. assert (S k = pred (length (insts s))) by lia. rewrite H0, Hx in Hy. inversion Hy; subst. rewrite Ectl in Hyc. discriminate.
+    + exfalso. assert (S k = pred (length (insts s))) by lia. rewrite H0, Hx in Hy. inversion Hy; subst. contradiction.
+  - intros i y H Hp. destruct (nth_error_snoc _ _ _ _ H) as [(_ & H1)|(_ & ->)]; [eapply Hbc; eauto|discriminate].
+  - replace (pred (length (insts s) + 1)) with (length (insts s)) by lia. intros y H Hc.
+    destruct (nth_error_snoc _ _ _ _ H) as [(L & _)|(_ & ->)]; [lia|discriminate].
 Qed.
 
-Lemma spawned_all n p j : past_spawn n p -> j < n -> spawned n p j = true.
-Proof. intros H Hj. apply H; exact Hj. Qed.
-
-Lemma past_spawn_ge n j : n <= j -> past_spawn n (PSpawn j).
-Proof. intros H k Hk. cbn. apply Nat.ltb_lt. lia. Qed.
-
-(** a change of the program counter to one that is past the spawn loop *)
-Lemma wf_pc n x p : wf n x -> past_spawn n (i_pc x) -> (forall j, p <> PSpawn j) -> i_ctl x = TNone -> p <> PRunning -> wf n (with_pc x p).
+Lemma nth_error_upd2 {A} (l : list A) i k x y x' y' a :
+  nth_error l i = Some x -> nth_error l k = Some y -> k <> i ->
+  nth_error (upd k y' (upd i x' l)) a = if Nat.eqb k a then Some y' else if Nat.eqb i a then Some x' else nth_error l a.
 Proof.
-  intros [H1 H2 H3 H4 H5 H6 H7 H8 H9] Hps Hp Hc Hr. constructor; cbn; auto.
-  - intros j Hj. apply H5. apply Hps. destruct p; cbn in Hj; try (apply Nat.ltb_lt; exact Hj). exfalso; eapply Hp; reflexivity.
-  - intros H. contradiction.
+  intros Hx Hy Hki. rewrite !nth_error_upd. rewrite Hx.
+  assert (Nat.eqb i k = false) as -> by (apply Nat.eqb_neq; lia). rewrite Hy. reflexivity.
+Qed.
+
+(** the successor writes "shutdown no-wait" to the predecessor's control socket *)
+Lemma hinv_send n s i x j k y :
+  hinv n s -> nth_error (insts s) i = Some x -> i_pc x = PSpawn j -> n <= j ->
+  path s = Some k -> nth_error (insts s) k = Some y -> i_ctl y = TBound -> k <> i ->
+  hinv n (set_inst (set_inst s i (with_pc x (PWait k))) k (with_msg y true (i_recv y) (i_replied y))).
+Proof.
+  intros Hinv Hx Hpc Hj Hp Hy Hcy Hki.
+  pose proof Hinv as [Hnp Hfirst Hwf Hpair Hlst Hpath Hbc Hsv].
+  assert (Hnr : i_pc x <> PRunning) by (rewrite Hpc; discriminate).
+  destruct (newest_of_not_running _ _ _ _ Hinv Hx Hnr) as (Hl & Hi0).
+  assert (Hk : S k = i).
+  { destruct (Hpath _ Hp) as [H|(H & _)]; lia. }
+  pose proof (Hpair _ _ _ Hy ltac:(rewrite Hk; exact Hx)) as [P1 P2 P3 P4].
+  assert (Hty : told y = false).
+  { destruct (told y) eqn:E; auto. specialize (P2 eq_refl). rewrite Hpc in P2. discriminate. }
+  unfold told in Hty. apply orb_false_iff in Hty as (Hmy & Hry).
+  pose proof (Hwf _ _ Hy) as Wy. pose proof (Hwf _ _ Hx) as Wx.
+  assert (Hrpy : i_replied y = false).
+  { destruct (i_replied y) eqn:E; auto. destruct (wf_replied _ _ Wy E) as (_ & H). congruence. }
+  assert (Hcx : i_ctl x = TNone) by (eapply not_running_no_ctl; eauto).
+  assert (Htx : told x = false).
+  { apply Hlst. replace (pred (length (insts s))) with i by lia. exact Hx. }
+  rewrite Hry, Hrpy.
+  set (x' := with_pc x (PWait k)). set (y' := with_msg y true false false).
+  assert (Wx' : wf n x').
+  { destruct Wx as [W1 W2 W3 W4 W5 W6 W7 W8 W9 W10 W11 W12 W13 W14 W15]. constructor; cbn_inst; auto.
+    all: try (intros; discriminate).
+    all: try (intros Hc; contradiction).
+    intros j0 Hj0. apply W5. rewrite Hpc. cbn_inst. apply Nat.ltb_lt. apply Nat.ltb_lt in Hj0. lia. }
+  assert (Wy' : wf n y').
+  { destruct Wy as [W1 W2 W3 W4 W5 W6 W7 W8 W9 W10 W11 W12 W13 W14 W15]. constructor; cbn_inst; auto.
+    all: try (intros HS; rewrite (W6 HS) in Hry; discriminate).
+    all: try (intros; rewrite ?Hcy; discriminate). }
+  unfold set_inst, with_insts. cbn [np insts path].
+  assert (Hlen : length (upd k y' (upd i x' (insts s))) = length (insts s)) by (rewrite !upd_length; reflexivity).
+  assert (Hnth : forall a, nth_error (upd k y' (upd i x' (insts s))) a =
+                           if Nat.eqb k a then Some y' else if Nat.eqb i a then Some x' else nth_error (insts s) a).
+  { intros a. eapply nth_error_upd2; eauto. }
+  constructor; cbn [np insts path]; try rewrite Hlen.
+  - exact Hnp.
+  - rewrite Hnth. destruct (Nat.eqb_spec k 0) as [E|E].
+    + exists y'. split; auto.
+    + destruct (Nat.eqb_spec i 0) as [E2|E2]; [contradiction|]. exact Hfirst.
+  - intros a z. rewrite Hnth. destruct (Nat.eqb_spec k a); [intros H; inversion H; subst; exact Wy'|].
+    destruct (Nat.eqb_spec i a); [intros H; inversion H; subst; exact Wx'|]. apply Hwf.
+  - intros a z w. rewrite !Hnth.
+    destruct (Nat.eqb_spec k a) as [Ea|Ea].
+    + subst a. rewrite Hk. destruct (Nat.eqb_spec k i); [contradiction|]. rewrite Nat.eqb_refl.
+      intros Hz Hw. inversion Hz; subst z. inversion Hw; subst w.
+      assert (Nat.eqb (S i) (length (insts s)) = true) as -> by (apply Nat.eqb_eq; exact Hl).
+      constructor; cbn; auto. intros k0 H0. inversion H0; subst. split; auto.
+    + destruct (Nat.eqb_spec k (S a)) as [Eb|Eb].
+      * destruct (Nat.eqb_spec i a) as [Ec|Ec]; [lia|]. intros Hz Hw. inversion Hw; subst w.
+        apply (pairinv_r a z y); auto. rewrite Eb in Hy. apply Hpair; auto.
+      * destruct (Nat.eqb_spec i a) as [Ec|Ec].
+        -- subst a. destruct (Nat.eqb_spec i (S i)); [lia|]. intros _ Hw. rewrite (no_succ_of_newest _ _ Hl) in Hw. discriminate.
+        -- destruct (Nat.eqb_spec i (S a)) as [Ed|Ed]; [lia|]. apply Hpair.
+  - rewrite Hnth. replace (pred (length (insts s))) with i by lia.
+    destruct (Nat.eqb_spec k i); [contradiction|]. rewrite Nat.eqb_refl. intros z H; inversion H; subst z. exact Htx.
+  - intros k0 H0. rewrite Hp in H0. inversion H0; subst k0. right. split; [lia|]. exists x'. split; auto.
+    rewrite Hnth, Hk. destruct (Nat.eqb_spec k i); [contradiction|]. rewrite Nat.eqb_refl. reflexivity.
+  - intros a z. rewrite Hnth. destruct (Nat.eqb_spec k a); [intros H; inversion H; subst; cbn; rewrite P1; discriminate|].
+    destruct (Nat.eqb_spec i a); [intros H; inversion H; subst; cbn; discriminate|]. apply Hbc.
+  - rewrite Hnth. replace (pred (length (insts s))) with i by lia.
+    destruct (Nat.eqb_spec k i); [contradiction|]. rewrite Nat.eqb_refl. intros z H; inversion H; subst z. cbn. rewrite Hcx. discriminate.
+Qed.
+
+
+Lemma same_ctl_refl_sd x sd : same_ctl x (with_sd x sd). Proof. repeat split. Qed.
+Lemma same_ctl_refl_ka x k : same_ctl x (with_ka x k). Proof. repeat split. Qed.
+Lemma same_ctl_refl_lw x w : same_ctl x (with_lw x w). Proof. repeat split. Qed.
+
+(** a step of the start-up program that changes only the program counter and the sockets *)
+Lemma wf_startup n x x' :
+  wf n x -> i_pc x <> PRunning -> i_pc x' <> PRunning -> length (i_bnd x') = n ->
+  i_ctl x' = i_ctl x -> i_msg x' = i_msg x -> i_recv x' = i_recv x -> i_replied x' = i_replied x -> i_sd x' = i_sd x ->
+  i_ka x' = i_ka x ->
+  (forall j, spawned n (i_pc x') j = true -> nth j (i_bnd x') BNone = BListening) ->
+  (forall j, i_pc x' = PListen j -> j < n) -> wf n x'.
+Proof.
+  intros Hw Hnr Hnr' Hlen Hc Hm Hr Hrp Hsd Hka Hb Hpl.
+  pose proof (not_running_no_ctl _ _ Hw Hnr) as Hc0.
+  destruct Hw as [W1 W2 W3 W4 W5 W6 W7 W8 W9 W10 W11 W12 W13 W14 W15].
+  constructor; unfold told, caller_pc in *; rewrite ?Hc, ?Hm, ?Hr, ?Hrp, ?Hsd, ?Hka; auto.
+  all: try (rewrite Hc0; intros H; contradiction).
+  all: try (intros H; contradiction).
+Qed.
+
+Lemma hinv_step_main n s i s' : hinv n s -> hstep hrepaired s (HMain i) = Some s' -> hinv n s'.
+Proof.
+  intros Hinv H. pose proof Hinv as [Hnp Hfirst Hwf Hpair Hlst Hpath Hbc Hsv]. cbn [hstep] in H.
+  destruct (nth_error (insts s) i) as [x|] eqn:Hx; try discriminate.
+  pose proof (Hwf _ _ Hx) as Hw.
+  unfold step_main in H. destruct (i_pc x) as [j|j|k| | |] eqn:Epc; try discriminate;
+    pose proof Hw as [W1 W2 W3 W4 W5 W6 W7 W8 W9 W10 W11 W12 W13 W14 W15];
+    assert (Hnr : i_pc x <> PRunning) by (rewrite Epc; discriminate);
+    pose proof (not_running_no_ctl _ _ Hw Hnr) as Hc;
+    destruct (newest_of_not_running _ _ _ _ Hinv Hx Hnr) as (Hl & Hi0).
+  - (* PSpawn *)
+    destruct (Nat.ltb j (np s)) eqn:Ej.
+    + apply Nat.ltb_lt in Ej. cbn [fixD hrepaired] in H. inversion H; subst s'; clear H.
+      apply (hinv_main_step n s i x); auto; cbn_inst; try discriminate; try (rewrite Epc; discriminate).
+      apply (wf_startup n x); auto; cbn_inst; try discriminate.
+      * rewrite upd_length; auto.
+      * intros j0 Hj0. apply Nat.ltb_lt in Hj0. rewrite nth_upd.
+        assert (Nat.eqb j j0 = false) as -> by (apply Nat.eqb_neq; lia).
+        apply W5. rewrite Epc. cbn_inst. apply Nat.ltb_lt. lia.
+      * intros j0 E. inversion E; subst. lia.
+    + apply Nat.ltb_ge in Ej.
+      assert (Hrm : hinv n (set_inst s i (with_pc x PRm))).
+      { apply (hinv_main_step n s i x); auto; cbn_inst; try discriminate; try (rewrite Epc; discriminate).
+        apply (wf_startup n x); auto; cbn_inst; try discriminate.
+        intros j0 Hj0. apply W5. rewrite Epc. cbn_inst. apply Nat.ltb_lt. apply Nat.ltb_lt in Hj0. lia. }
+      destruct (path s) as [k|] eqn:Hp; [|inversion H; subst; exact Hrm].
+      destruct (nth_error (insts s) k) as [y|] eqn:Hy; [|inversion H; subst; exact Hrm].
+      destruct (i_ctl y) eqn:Ey; try (inversion H; subst; exact Hrm).
+      destruct (Nat.eqb k i) eqn:Eki; try discriminate. apply Nat.eqb_neq in Eki.
+      inversion H; subst s'; clear H. eapply hinv_send; eauto. lia.
+  - (* PListen *)
+    inversion H; subst s'; clear H.
+    apply (hinv_main_step n s i x); auto; cbn_inst; try discriminate; try (rewrite Epc; discriminate).
+    apply (wf_startup n x); auto; cbn_inst; try discriminate.
+    + rewrite upd_length; auto.
+    + intros j0 Hj0. apply Nat.ltb_lt in Hj0. rewrite nth_upd. destruct (Nat.eqb_spec j j0) as [E|E].
+      * assert (Nat.ltb j (length (i_bnd x)) = true) as ->; [|reflexivity].
+        apply Nat.ltb_lt. rewrite W1. apply W15; auto.
+      * apply W5. rewrite Epc. cbn_inst. apply Nat.ltb_lt. lia.
+  - (* PWait *)
+    destruct (nth_error (insts s) k) as [y|] eqn:Hy; try discriminate. destruct (i_replied y) eqn:Ery; try discriminate.
+    inversion H; subst s'; clear H.
+    apply (hinv_main_step n s i x); auto; cbn_inst; try discriminate; try (rewrite Epc; discriminate).
+    + apply (wf_startup n x); auto; cbn_inst; try discriminate.
+      intros j0 Hj0. apply W5. rewrite Epc. exact Hj0.
+    + rewrite Epc. intros k0 E. inversion E; subst. right. eauto.
+  - (* PRm *)
+    cbn [fixE hrepaired] in H. inversion H; subst s'; clear H.
+    apply (hinv_upd n s i x); auto; cbn_inst.
+    + apply (wf_startup n x); auto; cbn_inst; try discriminate.
+      intros j0 Hj0. apply W5. rewrite Epc. exact Hj0.
+    + intros E. contradiction.
+    + intros a z Hz Ha. subst i. pose proof (Hpair _ _ _ Hz Hx) as [P1 P2 P3 P4]. rewrite Epc in *.
+      constructor; cbn_inst; auto; try discriminate.
+      intros T R. destruct (P3 T R) as (E & _). discriminate.
+    + intros y Hy. rewrite (no_succ_of_newest _ _ Hl) in Hy. discriminate.
+    + intros _. apply (Hlst x). replace (pred (length (insts s))) with i by lia. exact Hx.
+    + right. left. split; auto. split; [intros _; rewrite Hc; discriminate|]. intros y Hn. contradiction.
+  - (* PBindCtl *)
+    rewrite (Hbc _ _ Hx Epc) in H. inversion H; subst s'; clear H.
+    assert (Htx : told x = false) by (apply (Hlst x); replace (pred (length (insts s))) with i by lia; exact Hx).
+    unfold told in Htx. apply orb_false_iff in Htx as (Hmx & Hrx).
+    apply (hinv_upd n s i x); auto; cbn_inst.
+    + constructor; cbn_inst; unfold caller_pc; cbn_inst; auto; try discriminate.
+      all: try (intros; discriminate).
+      all: try (rewrite Hmx; intros; discriminate).
+      intros j0 Hj0. apply W5. rewrite Epc. exact Hj0.
+    + intros a z Hz Ha. subst i. pose proof (Hpair _ _ _ Hz Hx) as [P1 P2 P3 P4]. rewrite Epc in *.
+      constructor; cbn_inst; auto; try discriminate.
+      intros T R. destruct (P3 T R) as (E & _). discriminate.
+    + intros y Hy. rewrite (no_succ_of_newest _ _ Hl) in Hy. discriminate.
+    + intros _. unfold told. cbn_inst. rewrite Hmx, Hrx. reflexivity.
+    + right. right. split; auto. split; auto. discriminate.
+Qed.
+
+Lemma init_sent_recv n x : wf n x -> init_sent (i_sd x) = true -> i_recv x = true.
+Proof.
+  intros Hw Hi. apply (wf_S _ _ Hw). destruct (gS (i_sd x)) eqn:ES; auto.
+  destruct (unreq_reachable _ (wf_reach _ _ Hw) ES) as (_ & _ & H). congruence.
+Qed.
+
+Lemma removes_path_sset n x lb : wf n x -> removes_path x lb = true -> caller_pc x = Some SSet.
+Proof.
+  intros Hw H. destruct lb; try discriminate. cbn [removes_path] in H. unfold caller_pc.
+  destruct (nth_error (callers (i_sd x)) k) as [p|] eqn:E; try discriminate. destruct p; try discriminate.
+  apply nth_error_lt in E as Hlt. rewrite (wf_callers _ _ Hw) in Hlt. assert (k = 0) by lia. subst. exact E.
 Qed.
 
 Lemma hinv_step n s lb s' : hinv n s -> hstep hrepaired s lb = Some s' -> hinv n s'.
 Proof.
-  intros Hinv H. pose proof Hinv as [Hnp Hfirst Hwf Hold Hsucc Hpath].
-  destruct lb; cbn [hstep] in H.
+  intros Hinv H. destruct lb; try (eapply hinv_step_main; eauto; fail).
+  all: pose proof Hinv as [Hnp Hfirst Hwf Hpair Hlst Hpath Hbc Hsv]; cbn [hstep] in H.
   - (* HStart *)
     destruct (nth_error (insts s) (pred (length (insts s)))) as [x|] eqn:Hx; try discriminate.
-    destruct (is_up x) eqn:Hup; try discriminate. inversion H; subst. eapply hinv_start; eauto.
-  - (* HMain *)
-    destruct (nth_error (insts s) i) as [x|] eqn:Hx; try discriminate.
-    pose proof (Hwf _ _ Hx) as Hw.
-    unfold step_main in H. destruct (i_pc x) as [j|k| |] eqn:Epc; try discriminate; pose proof Hw as [W1 W2 W3 W4 W5 W6 W7 W8 W9].
-    + (* PSpawn *)
-      assert (Hc : i_ctl x = TNone).
-      { destruct (i_ctl x) eqn:E; auto; exfalso; assert (i_pc x = PRunning) by (apply W8; discriminate); congruence. }
-      destruct (Nat.ltb j (np s)) eqn:Ej.
-      * apply Nat.ltb_lt in Ej. cbn [fixD hrepaired] in H. inversion H; subst s'; clear H.
-        apply (hinv_upd n s i x); auto.
-        -- constructor; cbn; auto.
-           ++ rewrite upd_length; auto.
-           ++ intros j0 Hj0. assert (j0 < S j) by (cbn in Hj0; lia). rewrite nth_upd. destruct (Nat.eqb j j0) eqn:E.
-              ** assert (Nat.ltb j (length (i_bnd x)) = true) as -> by (apply Nat.ltb_lt; lia). reflexivity.
-              ** apply Nat.eqb_neq in E. apply W5. rewrite Epc. cbn. apply Nat.ltb_lt. lia.
-           ++ intros Hn. contradiction.
-           ++ discriminate.
-        -- rewrite Epc. discriminate.
-        -- rewrite Epc. intros Hps. assert (Hjn : j < n) by lia. specialize (Hps j Hjn). unfold spawned in Hps. rewrite Nat.ltb_irrefl in Hps. discriminate Hps.
-      * apply Nat.ltb_ge in Ej.
-        assert (Hps : past_spawn n (i_pc x)) by (rewrite Epc; apply past_spawn_ge; lia).
-        assert (Hrm : hinv n (set_inst s i (with_pc x PRm))).
-        { apply (hinv_upd n s i x); auto.
-          - apply wf_pc; auto; discriminate.
-          - rewrite Epc; discriminate.
-          - intros _. apply past_spawn_other. discriminate. }
-        destruct (path s) as [k|] eqn:Hp; [|inversion H; subst; exact Hrm].
-        destruct (nth_error (insts s) k) as [y|] eqn:Hy; [|inversion H; subst; exact Hrm].
-        destruct (i_ctl y) eqn:Ey; try (inversion H; subst; exact Hrm).
-        destruct (Nat.eqb k i) eqn:Eki; try discriminate. apply Nat.eqb_neq in Eki.
-        inversion H; subst s'; clear H.
-        assert (Hi : S i = length (insts s)).
-        { destruct (Nat.eq_dec (S i) (length (insts s))); auto. apply nth_error_lt in Hx as Hlt.
-          destruct (Hold _ _ Hx) as (Hr & _); [lia|]. congruence. }
-        assert (Hk : S k = i).
-        { destruct (Hpath k eq_refl) as [Hk|(Hk & _)]; lia. }
-        assert (H1 : hinv n (set_inst s i (with_pc x (PWait k)))).
-        { apply (hinv_upd n s i x); auto.
-          - apply wf_pc; auto; discriminate.
-          - rewrite Epc; discriminate.
-          - intros _. apply past_spawn_other. discriminate. }
-        apply (hinv_upd n (set_inst s i (with_pc x (PWait k))) k y); auto.
-        -- cbn. rewrite nth_error_upd. assert (Nat.eqb i k = false) as -> by (apply Nat.eqb_neq; lia). exact Hy.
-        -- pose proof (Hwf _ _ Hy) as [V1 V2 V3 V4 V5 V6 V7 V8 V9]. constructor; cbn; auto. intros _. rewrite Ey. discriminate.
-        -- intros _. right. cbn [insts set_inst with_insts]. rewrite Hk. rewrite nth_error_upd. rewrite Nat.eqb_refl, Hx. eexists; split; [reflexivity|].
-           cbn. apply past_spawn_other. discriminate.
-    + (* PWait *)
-      destruct (nth_error (insts s) k) as [y|] eqn:Hy; try discriminate. destruct (i_replied y); try discriminate.
-      inversion H; subst s'; clear H.
-      assert (Hc : i_ctl x = TNone).
-      { destruct (i_ctl x) eqn:E; auto; exfalso; assert (i_pc x = PRunning) by (apply W8; discriminate); congruence. }
-      apply (hinv_upd n s i x); auto.
-      * apply wf_pc; auto; try discriminate. rewrite Epc. apply past_spawn_other. discriminate.
-      * rewrite Epc; discriminate.
-      * intros _. apply past_spawn_other. discriminate.
-    + (* PRm *)
-      inversion H; subst s'; clear H.
-      apply (hinv_upd n s i x); auto.
-      * constructor; cbn; auto; try (intros; discriminate). intros j Hj. apply W5. rewrite Epc. exact Hj.
-      * rewrite Epc; discriminate.
-      * intros _. apply past_spawn_other. discriminate.
+    destruct (is_running x) eqn:Hup; try discriminate. inversion H; subst. eapply hinv_start; eauto.
   - (* HBind *)
-    destruct (nth_error (insts s) i); try discriminate.
+    destruct (nth_error (insts s) i); discriminate.
   - (* HCtl *)
     destruct (nth_error (insts s) i) as [x|] eqn:Hx; try discriminate.
-    pose proof (Hwf _ _ Hx) as Hw.
-    unfold step_ctl in H. destruct (i_ctl x) eqn:Ec; try discriminate; pose proof Hw as [W1 W2 W3 W4 W5 W6 W7 W8 W9].
-    + assert (Hi : S i = length (insts s)).
-      { destruct (Nat.eq_dec (S i) (length (insts s))); auto. apply nth_error_lt in Hx as Hlt.
-        destruct (Hold _ _ Hx) as (_ & Hr); [lia|]. congruence. }
-      assert (Hr : i_pc x = PRunning) by (apply W8; rewrite Ec; discriminate).
-      destruct (path s) eqn:Hp; inversion H; subst s'; clear H; apply (hinv_upd n s i x); auto.
-      all: try (constructor; cbn; auto; intros; discriminate).
-      all: try (intros _; split; auto; intros _; cbn; discriminate).
-      all: try (left; split; auto; rewrite Ec; discriminate).
-      all: try (right; right; split; auto).
-    + destruct (init_sent (i_sd x)); try discriminate. inversion H; subst s'; clear H.
-      assert (Hr : i_pc x = PRunning) by (apply W8; rewrite Ec; discriminate).
-      apply (hinv_upd n s i x); auto.
-      * constructor; cbn; auto; intros; discriminate.
-      * intros _. split; auto. intros _. cbn. discriminate.
-      * left. split; auto. rewrite Ec. discriminate.
+    pose proof (Hwf _ _ Hx) as Hw. pose proof Hw as [W1 W2 W3 W4 W5 W6 W7 W8 W9 W10 W11 W12 W13 W14 W15].
+    unfold step_ctl in H. destruct (i_ctl x) eqn:Ec; try discriminate; [contradiction|].
+    destruct (init_sent (i_sd x)) eqn:Ei; try discriminate. inversion H; subst s'; clear H.
+    assert (Hr : i_pc x = PRunning) by (apply W8; discriminate).
+    assert (Hrecv : i_recv x = true) by (eapply init_sent_recv; eauto).
+    assert (Hm : i_msg x = false).
+    { destruct (i_msg x) eqn:E; auto. destruct (W13 eq_refl) as (Hf & _). congruence. }
+    apply (hinv_upd n s i x); auto; cbn_inst.
+    + constructor; cbn_inst; unfold caller_pc; cbn_inst; auto; try discriminate.
+      all: try (intros; discriminate).
+      all: try (rewrite ?Hm; intros; discriminate).
+    + intros a z Hz Ha. subst i. apply (pairinv_r a z x); auto.
+    + intros y Hy. apply (pairinv_l i x); auto.
+    + intros Hl. apply (Hlst x). replace (pred (length (insts s))) with i by lia. exact Hx.
+    + left. repeat split; auto; try (rewrite ?Ec; discriminate).
   - (* HRecv *)
     destruct (nth_error (insts s) i) as [x|] eqn:Hx; try discriminate.
-    pose proof (Hwf _ _ Hx) as Hw.
+    pose proof (Hwf _ _ Hx) as Hw. pose proof Hw as [W1 W2 W3 W4 W5 W6 W7 W8 W9 W10 W11 W12 W13 W14 W15].
     unfold step_recv in H. destruct (i_ctl x) eqn:Ec; try discriminate.
     destruct (i_msg x) eqn:Em; try discriminate. destruct (i_recv x) eqn:Er; try discriminate.
-    cbn in H. inversion H; subst s'; clear H. pose proof Hw as [W1 W2 W3 W4 W5 W6 W7 W8 W9].
-    apply (hinv_upd n s i x); auto.
-    + constructor; cbn; auto. intros _. rewrite Ec. discriminate.
-    + intros _. left. rewrite Em. reflexivity.
+    cbn [andb negb] in H. inversion H; subst s'; clear H.
+    assert (Hrp : i_replied x = false).
+    { destruct (i_replied x) eqn:E; auto. destruct (W12 eq_refl) as (_ & Hf). congruence. }
+    assert (Ht : told x = true) by (unfold told; rewrite Em; reflexivity).
+    apply (hinv_upd n s i x); auto; cbn_inst.
+    + constructor; cbn_inst; unfold caller_pc; cbn_inst; auto; try discriminate.
+      all: try (intros; discriminate).
+      all: try (rewrite ?Ec; intros; discriminate).
+      rewrite Hrp. intros; discriminate.
+    + intros a z Hz Ha. subst i. apply (pairinv_r a z x); auto.
+    + intros y Hy. apply (pairinv_l i x); auto; unfold told; cbn_inst; rewrite ?Em, ?Er; reflexivity.
+    + intros Hl. exfalso. assert (told x = false); [|congruence]. apply (Hlst x).
+      replace (pred (length (insts s))) with i by lia. exact Hx.
   - (* HReply *)
     destruct (nth_error (insts s) i) as [x|] eqn:Hx; try discriminate.
-    pose proof (Hwf _ _ Hx) as Hw.
+    pose proof (Hwf _ _ Hx) as Hw. pose proof Hw as [W1 W2 W3 W4 W5 W6 W7 W8 W9 W10 W11 W12 W13 W14 W15].
     unfold step_reply in H. destruct (i_recv x) eqn:Er; try discriminate.
     destruct (i_replied x) eqn:Ep; try discriminate. cbn [andb negb] in H.
-    destruct (caller_pc x) as [[]|]; try discriminate. inversion H; subst s'; clear H. pose proof Hw as [W1 W2 W3 W4 W5 W6 W7 W8 W9].
-    apply (hinv_upd n s i x); auto.
-    + constructor; cbn; auto. intros _. apply W7. rewrite Er. apply orb_true_r.
-    + intros _. left. rewrite Er. apply orb_true_r.
+    destruct (caller_pc x) as [[]|] eqn:Ecp; try discriminate. inversion H; subst s'; clear H.
+    assert (Ht : told x = true) by (unfold told; rewrite Er; apply orb_true_r).
+    apply (hinv_upd n s i x); auto; cbn_inst.
+    + constructor; cbn_inst; unfold caller_pc in *; cbn_inst; auto; try discriminate.
+    + intros a z Hz Ha. subst i. apply (pairinv_r a z x); auto.
+    + intros y Hy. apply (pairinv_l i x); auto. unfold told; cbn_inst. rewrite Er, !orb_true_r. reflexivity.
+    + intros Hl. exfalso. assert (told x = false); [|congruence]. apply (Hlst x).
+      replace (pred (length (insts s))) with i by lia. exact Hx.
   - (* HSd *)
     destruct (nth_error (insts s) i) as [x|] eqn:Hx; try discriminate.
-    pose proof (Hwf _ _ Hx) as Hw. pose proof Hw as [W1 W2 W3 W4 W5 W6 W7 W8 W9].
+    pose proof (Hwf _ _ Hx) as Hw.
     unfold step_sd in H. destruct (sd_gate x lb) eqn:Eg; try discriminate.
     destruct (step repaired (i_sd x) lb) as [sd'|] eqn:Es; try discriminate.
-    destruct (step_lengths _ _ _ _ Es) as (L1 & L2).
-    assert (Hw' : wf n (with_sd x sd')).
-    { constructor; cbn; auto; try congruence.
-      - eapply reach_step; eauto.
-      - intros HS. destruct lb; try (apply W6; rewrite <- HS; symmetry; eapply step_S_other; eauto; intros; discriminate).
-        exact Eg. }
-    destruct (removes_path x lb); inversion H; subst s'; clear H; apply (hinv_upd n s i x); auto.
+    assert (Hw' : wf n (with_sd x sd')) by (eapply wf_sd; eauto).
+    destruct (removes_path x lb) eqn:Erm; inversion H; subst s'; clear H.
+    + apply (hinv_inert n s i x); auto; [apply same_ctl_refl_sd|]. right. split; auto.
+      intros y Hy Hcy.
+      destruct (sset_newest_waits n s i x Hinv Hx (removes_path_sset _ _ _ Hw Erm)) as (z & Hz & Hpz & Hl).
+      assert (S i = pred (length (insts s))) by lia. rewrite <- H in Hy. rewrite Hz in Hy. inversion Hy; subst z.
+      assert (i_ctl y = TNone); [|congruence]. apply (not_running_no_ctl n y); [eapply Hwf; eauto|rewrite Hpz; discriminate].
+    + apply (hinv_inert n s i x); auto. apply same_ctl_refl_sd.
+  - (* HReq *)
+    destruct (nth_error (insts s) i) as [x|] eqn:Hx; try discriminate.
+    pose proof (Hwf _ _ Hx) as Hw. unfold step_req in H. destruct (conn_running x c); try discriminate.
+    destruct (k_st (kget c (i_ka x))) eqn:Ek; try discriminate. inversion H; subst s'; clear H.
+    apply (hinv_inert n s i x); auto; [|apply same_ctl_refl_ka].
+    apply wf_ka_upd; auto. destruct (wf_ka _ _ Hw c) as (Ha & Hb). unfold k_read. cbn [k_after k_st].
+    assert (H0 : k_after (kget c (i_ka x)) = 0).
+    { destruct (Nat.eq_dec (k_after (kget c (i_ka x))) 1) as [E|E]; [|lia]. destruct (Hb E) as (_ & Hn). congruence. }
+    rewrite H0. destruct (gS (i_sd x)); split; try lia; intros; try lia. split; auto. discriminate.
+  - (* HResp *)
+    destruct (nth_error (insts s) i) as [x|] eqn:Hx; try discriminate.
+    pose proof (Hwf _ _ Hx) as Hw. unfold step_resp in H. destruct (conn_running x c); try discriminate.
+    destruct (k_st (kget c (i_ka x))) eqn:Ek; try discriminate. inversion H; subst s'; clear H.
+    apply (hinv_inert n s i x); auto; [|apply same_ctl_refl_ka].
+    apply wf_ka_upd; auto. destruct (wf_ka _ _ Hw c) as (Ha & Hb). unfold k_answered. cbn [k_after k_st].
+    split; auto. intros E. destruct (Hb E) as (HS & _). rewrite HS. split; auto. discriminate.
+  - (* HKaEnd *)
+    destruct (nth_error (insts s) i) as [x|] eqn:Hx; try discriminate.
+    pose proof (Hwf _ _ Hx) as Hw. unfold step_kaend in H. destruct (conn_running x c); try discriminate.
+    assert (Hg : hinv n (set_inst s i (with_ka x (kset c (k_ended x c) (i_ka x))))).
+    { apply (hinv_inert n s i x); auto; [|apply same_ctl_refl_ka].
+      apply wf_ka_upd; auto. destruct (wf_ka _ _ Hw c) as (Ha & Hb). unfold k_ended. cbn [k_after k_st].
+      split; auto. intros E. destruct (Hb E) as (HS & _). split; auto. discriminate. }
+    destruct (k_st (kget c (i_ka x))); try discriminate; inversion H; subst s'; exact Hg.
+  - (* HWaitNew *)
+    destruct (nth_error (insts s) i) as [x|] eqn:Hx; try discriminate. inversion H; subst s'; clear H.
+    apply (hinv_inert n s i x); auto; [apply wf_lw; eauto|apply same_ctl_refl_lw].
+  - (* HWaitPoll *)
+    destruct (nth_error (insts s) i) as [x|] eqn:Hx; try discriminate.
+    unfold step_wpoll in H. destruct (nth_error (i_lw x) w) as [[]|]; try discriminate.
+    destruct (finished (i_sd x)); try discriminate. inversion H; subst s'; clear H.
+    apply (hinv_inert n s i x); auto; [apply wf_lw; eauto|apply same_ctl_refl_lw].
 Qed.
 
 Lemma hinv_reachable n s : hreachable hrepaired n s -> hinv n s.
@@ -384,58 +773,68 @@ Proof. induction 1. apply hinv_init. eapply hinv_step; eauto. Qed.
 Lemma l_open_bound l : l_open l = true -> l_bound l = true.
 Proof. unfold l_open, l_bound. destruct (l_pc l); auto. Qed.
 
-(** an instance that has not been asked to shut down listens on every port its start-up has handled *)
+(** an instance that has not been asked to shut down listens on every socket its start-up has put into listening state *)
 Lemma unasked_listening n x j :
-  wf n x -> i_recv x = false -> j < n -> nth j (i_bnd x) false = true -> listening x j = true.
+  wf n x -> i_recv x = false -> j < n -> nth j (i_bnd x) BNone = BListening -> listening x j = true.
 Proof.
-  intros [W1 W2 W3 W4 W5 W6 W7 W8 W9] Hr Hj Hb. unfold listening. rewrite Hb. cbn [andb].
+  intros Hw Hr Hj Hb. unfold listening. rewrite Hb. cbn [andb is_listening].
   destruct (nth_error (ls (i_sd x)) j) as [l|] eqn:El.
-  - assert (HS : gS (i_sd x) = false) by (destruct (gS (i_sd x)); auto; rewrite W6 in Hr; auto; discriminate).
-    destruct (unreq_reachable _ W4 HS) as (Hl & _). apply l_open_bound. eapply forallb_nth; eauto.
-  - apply nth_error_None in El. lia.
+  - assert (HS : gS (i_sd x) = false) by (destruct (gS (i_sd x)) eqn:E; auto; rewrite (wf_S _ _ Hw E) in Hr; discriminate).
+    destruct (unreq_reachable _ (wf_reach _ _ Hw) HS) as (Hl & _). apply l_open_bound. eapply forallb_nth; eauto.
+  - apply nth_error_None in El. rewrite (wf_ls _ _ Hw) in El. lia.
 Qed.
 
-Lemma past_spawn_dec n p : {past_spawn n p} + {exists j, p = PSpawn j /\ j < n}.
-Proof.
-  destruct p as [j|k| |]; try (left; apply past_spawn_other; discriminate).
-  destruct (le_lt_dec n j); [left; apply past_spawn_ge; auto|right; eauto].
-Qed.
+Lemma has_sent_spawned n p j : has_sent p = true -> j < n -> spawned n p j = true.
+Proof. intros H Hj. destruct p; try discriminate; cbn; apply Nat.ltb_lt; exact Hj. Qed.
 
 Lemma always_bound n s j : hreachable hrepaired n s -> j < n -> port_served s j = true.
 Proof.
-  intros Hr Hj. apply hinv_reachable in Hr. destruct Hr as [Hnp Hfirst Hwf Hold Hsucc Hpath].
-  destruct Hfirst as (x0 & H0 & Hp0).
-  assert (Hlen : length (insts s) > 0) by (apply nth_error_lt in H0; lia).
+  intros Hr Hj. apply hinv_reachable in Hr.
+  pose proof (hinv_len _ _ Hr) as Hlen.
   destruct (nth_error (insts s) (pred (length (insts s)))) as [x|] eqn:Hx; [|apply nth_error_None in Hx; lia].
-  assert (Hrx : i_recv x = false).
-  { destruct (i_recv x) eqn:E; auto. destruct (Hsucc _ _ Hx) as (y & Hy & _); [rewrite E; apply orb_true_r|].
-    apply nth_error_lt in Hy. lia. }
+  pose proof (hi_last _ _ Hr _ Hx) as Htx. pose proof Hr as [Hnp Hfirst Hwf Hpair Hlst Hpath Hbc Hsv]. unfold told in Htx. apply orb_false_iff in Htx as (_ & Hrx).
   unfold port_served.
-  destruct (past_spawn_dec n (i_pc x)) as [Hps|(j' & Hpc & Hj')].
+  destruct (spawned n (i_pc x) j) eqn:Esp.
   - eapply ShutdownProofs.existsb_nth; [exact Hx|]. pose proof (Hwf _ _ Hx) as Hw. apply (unasked_listening n); auto.
-    apply (wf_bnd _ _ Hw). apply Hps; exact Hj.
-  - destruct (pred (length (insts s))) as [|L] eqn:EL.
-    + rewrite H0 in Hx. inversion Hx; subst. congruence.
+    apply (wf_bnd _ _ Hw). exact Esp.
+  - (* the newest instance is still creating its sockets: the one before it has not been told *)
+    destruct (pred (length (insts s))) as [|L] eqn:EL.
+    + destruct Hfirst as (x0 & H0 & Hp0). rewrite H0 in Hx. inversion Hx; subst. rewrite Hp0 in Esp. cbn in Esp.
+      apply Nat.ltb_ge in Esp. lia.
     + destruct (nth_error (insts s) L) as [y|] eqn:Hy; [|apply nth_error_None in Hy; lia].
-      destruct (Hold _ _ Hy) as (Hpy & _); [lia|].
+      pose proof (Hpair _ _ _ Hy Hx) as [P1 P2 P3 P4].
       pose proof (Hwf _ _ Hy) as Hw. eapply ShutdownProofs.existsb_nth; [exact Hy|]. apply (unasked_listening n); auto.
-      * destruct (i_recv y) eqn:E; auto. destruct (Hsucc _ _ Hy) as (z & Hz & Hzp); [rewrite E; apply orb_true_r|].
-        rewrite Hx in Hz. inversion Hz; subst z. rewrite Hpc in Hzp. specialize (Hzp j' Hj'). unfold spawned in Hzp.
-        rewrite Nat.ltb_irrefl in Hzp. discriminate.
-      * apply (wf_bnd _ _ Hw). rewrite Hpy. cbn. apply Nat.ltb_lt. exact Hj.
+      * destruct (i_recv y) eqn:E; auto. exfalso.
+        assert (Ht : told y = true) by (unfold told; rewrite E; apply orb_true_r).
+        rewrite (has_sent_spawned n _ j (P2 Ht) Hj) in Esp. discriminate.
+      * apply (wf_bnd _ _ Hw). rewrite P1. cbn. apply Nat.ltb_lt. exact Hj.
+Qed.
+
+(** the predecessor is told (the message is on its control socket, or its plugin has been entered) only when the successor
+    has every socket bound and listening *)
+Lemma told_after_bound n s i x :
+  hreachable hrepaired n s -> nth_error (insts s) i = Some x -> (i_msg x || i_recv x) = true ->
+  exists y, nth_error (insts s) (S i) = Some y /\ all_bnd n y.
+Proof.
+  intros Hr Hx Ht. apply hinv_reachable in Hr.
+  destruct (nth_error (insts s) (S i)) as [y|] eqn:Hy.
+  - exists y. split; auto. intros j Hj. apply (wf_bnd _ _ (hi_wf _ _ Hr _ _ Hy)).
+    apply has_sent_spawned; auto. exact (pi_sent _ _ _ _ (hi_pair _ _ Hr _ _ _ Hx Hy) Ht).
+  - exfalso. apply nth_error_None in Hy. apply nth_error_lt in Hx as Hlt.
+    assert (Hi : i = pred (length (insts s))) by lia. rewrite Hi in Hx. pose proof (hi_last _ _ Hr _ Hx) as Hf.
+    unfold told in Hf. congruence.
 Qed.
 
 Lemma successor_binds_first n s i x j :
   hreachable hrepaired n s -> nth_error (insts s) i = Some x -> closed x j ->
   exists y, nth_error (insts s) (S i) = Some y /\ all_bnd n y.
 Proof.
-  intros Hr Hx (l & Hl & Hb). apply hinv_reachable in Hr. destruct Hr as [Hnp Hfirst Hwf Hold Hsucc Hpath].
-  pose proof (Hwf _ _ Hx) as [W1 W2 W3 W4 W5 W6 W7 W8 W9].
+  intros Hr Hx (l & Hl & Hb). apply (told_after_bound n s i x); auto.
+  apply hinv_reachable in Hr. pose proof (hi_wf _ _ Hr _ _ Hx) as Hw.
   assert (HS : gS (i_sd x) = true).
-  { destruct (gS (i_sd x)) eqn:E; auto. destruct (unreq_reachable _ W4 E) as (Ho & _).
+  { destruct (gS (i_sd x)) eqn:E; auto. destruct (unreq_reachable _ (wf_reach _ _ Hw) E) as (Ho & _).
     pose proof (forallb_nth _ _ _ _ Ho Hl) as Hlo. apply l_open_bound in Hlo. congruence. }
-  destruct (Hsucc _ _ Hx) as (y & Hy & Hyp); [rewrite (W6 HS); apply orb_true_r|].
-  exists y. split; auto. intros j0 Hj0. apply (wf_bnd _ _ (Hwf _ _ Hy)). apply Hyp; exact Hj0.
+  rewrite (wf_S _ _ Hw HS). apply orb_true_r.
 Qed.
 
 (** the embedded machine of every instance is a reachable state of C10's system: C10's theorems apply *)
@@ -443,35 +842,66 @@ Lemma handover_drains_safe n s i x :
   hreachable hrepaired n s -> nth_error (insts s) i = Some x -> finished (i_sd x) = true ->
   all_done (i_sd x) = true /\ forallb (fun l => negb (l_bound l)) (ls (i_sd x)) = true.
 Proof.
-  intros Hr Hx Hf. apply hinv_reachable in Hr. destruct (hi_wf _ _ Hr _ _ Hx) as [W1 W2 W3 W4 W5 W6 W7 W8 W9].
+  intros Hr Hx Hf. apply hinv_reachable in Hr. pose proof (wf_reach _ _ (hi_wf _ _ Hr _ _ Hx)) as W4.
   split; [apply finished_after_all|apply finished_listeners_closed]; auto.
 Qed.
 
+(** keep-alive: after the shutdown flag has been set, a connection task reads at most one more request *)
+Lemma keepalive_one_more n s i x c :
+  hreachable hrepaired n s -> nth_error (insts s) i = Some x -> k_after (kget c (i_ka x)) <= 1.
+Proof. intros Hr Hx. apply hinv_reachable in Hr. exact (proj1 (wf_ka _ _ (hi_wf _ _ Hr _ _ Hx) c)). Qed.
+
+(** a wait() that is polled after the shutdown-complete signal resolves at once, whenever it was called *)
+Lemma late_wait_resolves v s i x w :
+  nth_error (insts s) i = Some x -> finished (i_sd x) = true -> nth_error (i_lw x) w = Some false ->
+  exists s', hstep v s (HWaitPoll i w) = Some s' /\
+             exists x', nth_error (insts s') i = Some x' /\ nth_error (i_lw x') w = Some true.
+Proof.
+  intros Hx Hf Hw. cbn [hstep]. rewrite Hx. unfold step_wpoll. rewrite Hw, Hf. eexists; split; [reflexivity|].
+  cbn. rewrite nth_error_upd, Nat.eqb_refl, Hx. eexists; split; [reflexivity|]. cbn.
+  rewrite nth_error_upd, Nat.eqb_refl, Hw. reflexivity.
+Qed.
+
+Lemma told_running n x : wf n x -> told x = true -> i_pc x = PRunning.
+Proof. intros Hw Ht. apply (wf_ctl _ _ Hw). apply (wf_recv _ _ Hw). exact Ht. Qed.
+
 Lemma handover_no_hang n s i x :
   hreachable hrepaired n s -> nth_error (insts s) i = Some x -> i_recv x = true -> hquiescent hrepaired s ->
-  completed (i_sd x) = true.
+  completed (i_sd x) = true /\ forallb (fun w => w) (i_lw x) = true.
 Proof.
   intros Hr Hx Hrecv Hq. apply hinv_reachable in Hr. pose proof (hi_wf _ _ Hr _ _ Hx) as Hw.
-  pose proof Hw as [W1 W2 W3 W4 W5 W6 W7 W8 W9].
-  assert (Hrun : i_pc x = PRunning) by (apply W8, W7; rewrite Hrecv; apply orb_true_r).
+  pose proof Hw as [W1 W2 W3 W4 W5 W6 W7 W8 W9 W10 W11 W12 W13 W14 W15].
+  assert (Hrun : i_pc x = PRunning) by (apply (told_running n); auto; unfold told; rewrite Hrecv; apply orb_true_r).
   (* every step of the embedded machine is a step of the whole system *)
   assert (Hq' : quiescent repaired (i_sd x)).
-  { intros lb Hlb. specialize (Hq (HSd i lb) Hlb). cbn [hstep] in Hq. rewrite Hx in Hq. unfold step_sd in Hq.
+  { intros lb Hlb. pose proof (Hq (HSd i lb) Hlb) as Hq1. cbn [hstep] in Hq1. rewrite Hx in Hq1. unfold step_sd in Hq1.
     destruct (step repaired (i_sd x) lb) as [sd'|] eqn:Es; auto. exfalso.
     assert (Hg : sd_gate x lb = true).
-    { destruct lb; cbn [sd_gate]; auto; cbn [step] in Es;
-        match type of Es with context [nth_error (ls _) ?j] => destruct (nth_error (ls (i_sd x)) j) eqn:El; try discriminate end;
-        apply W5; rewrite Hrun; cbn; apply Nat.ltb_lt; apply nth_error_lt in El; lia. }
-    rewrite Hg in Hq. destruct (removes_path x lb); discriminate. }
-  apply no_hang; auto.
-  (* requested: the caller has left SNew, else its first step would be enabled *)
-  unfold requested. destruct (gS (i_sd x)) eqn:ES; auto. exfalso.
-  destruct (unreq_reachable _ W4 ES) as (_ & Hc & _).
-  destruct (callers (i_sd x)) as [|p r] eqn:Ec; [discriminate W3|].
-  cbn in Hc. apply andb_true_iff in Hc as (Hp & _). destruct p; try discriminate.
-  specialize (Hq (HSd i (SStep 0)) eq_refl). cbn [hstep] in Hq. rewrite Hx in Hq. unfold step_sd in Hq.
-  cbn [sd_gate] in Hq. rewrite Hrecv in Hq. cbn [step] in Hq. rewrite Ec in Hq. cbn in Hq.
-  destruct (removes_path x (SStep 0)); discriminate.
+    { destruct lb; cbn [sd_gate]; auto.
+      - cbn [step] in Es. destruct (nth_error (ls (i_sd x)) i0) eqn:El; try discriminate.
+        rewrite W5; auto. rewrite Hrun. cbn. apply Nat.ltb_lt. apply nth_error_lt in El. lia.
+      - cbn [step] in Es. destruct (nth_error (ls (i_sd x)) i0) eqn:El; try discriminate.
+        rewrite W5; auto. rewrite Hrun. cbn. apply Nat.ltb_lt. apply nth_error_lt in El. lia.
+      - discriminate Hlb.
+      - destruct (conn_running x c) eqn:Ecr; auto. unfold k_exited.
+        destruct (k_st (kget c (i_ka x))) eqn:Ek; auto; exfalso;
+          specialize (Hq (HKaEnd i c) eq_refl); cbn [hstep] in Hq; rewrite Hx in Hq; unfold step_kaend in Hq;
+          rewrite Ecr, Ek in Hq; discriminate. }
+    rewrite Hg in Hq1. destruct (removes_path x lb); discriminate. }
+  assert (Hc : completed (i_sd x) = true).
+  { apply no_hang; auto.
+    (* requested: the caller has left SNew, else its first step would be enabled *)
+    unfold requested. destruct (gS (i_sd x)) eqn:ES; auto. exfalso.
+    destruct (unreq_reachable _ W4 ES) as (_ & Hc & _).
+    destruct (callers (i_sd x)) as [|p r] eqn:Ec; [discriminate W3|].
+    cbn in Hc. apply andb_true_iff in Hc as (Hp & _). destruct p; try discriminate.
+    specialize (Hq (HSd i (SStep 0)) eq_refl). cbn [hstep] in Hq. rewrite Hx in Hq. unfold step_sd in Hq.
+    cbn [sd_gate] in Hq. rewrite Hrecv in Hq. cbn [step] in Hq. rewrite Ec in Hq. cbn in Hq.
+    destruct (removes_path x (SStep 0)); discriminate. }
+  split; auto.
+  apply forallb_intro. intros w b Hwb. destruct b; auto. exfalso.
+  specialize (Hq (HWaitPoll i w) eq_refl). cbn [hstep] in Hq. rewrite Hx in Hq. unfold step_wpoll in Hq. rewrite Hwb in Hq.
+  unfold completed in Hc. repeat (apply andb_true_iff in Hc as (Hc & ?)). rewrite Hc in Hq. discriminate.
 Qed.
 
 (** who answers at the control-socket path: the newest instance, or its predecessor while the newest is still
@@ -488,7 +918,155 @@ Proof.
   split; auto. exists y. split; auto. intros Hrun. apply (wf_run _ _ (hi_wf _ _ Hr _ _ Hy)) in Hrun. contradiction.
 Qed.
 
-(** ** kvarn 0.6.3 as found: the accept task binds, the start-up program goes on to the handover message *)
+(** when nothing can move, the newest instance's [execute] has returned *)
+Lemma quiescent_newest_running n s x :
+  hinv n s -> hquiescent hrepaired s -> nth_error (insts s) (pred (length (insts s))) = Some x -> i_pc x = PRunning.
+Proof.
+  intros Hinv Hq Hx. pose proof (hinv_len _ _ Hinv) as Hlen. set (L := pred (length (insts s))) in *.
+  pose proof (hi_wf _ _ Hinv _ _ Hx) as Hw.
+  pose proof (Hq (HMain L) eq_refl) as Hm. cbn [hstep] in Hm. rewrite Hx in Hm. unfold step_main in Hm.
+  destruct (i_pc x) as [j|j|k| | |] eqn:Epc; auto; exfalso; cbn [fixD fixE hrepaired] in Hm.
+  - destruct (Nat.ltb j (np s)); try discriminate.
+    destruct (path s) as [k|] eqn:Hp; try discriminate.
+    destruct (nth_error (insts s) k) as [y|] eqn:Hy; try discriminate.
+    destruct (i_ctl y) eqn:Ey; try discriminate.
+    destruct (Nat.eqb_spec k L) as [E|E]; try discriminate. subst k. rewrite Hx in Hy. inversion Hy; subst y.
+    assert (i_pc x = PRunning) by (apply (wf_ctl _ _ Hw); rewrite Ey; discriminate). congruence.
+  - discriminate.
+  - (* waiting for the reply of instance k: it has been told, so its plugin can run and reply *)
+    assert (HL : L <> 0).
+    { intros E. destruct (hi_first _ _ Hinv) as (x0 & H0 & Hp0). rewrite E in Hx. rewrite Hx in H0. inversion H0; subst. congruence. }
+    destruct L as [|a] eqn:EL; [contradiction|].
+    destruct (nth_error (insts s) a) as [y|] eqn:Hy; [|apply nth_error_None in Hy; lia].
+    destruct (pi_pwait _ _ _ _ (hi_pair _ _ Hinv _ _ _ Hy Hx) _ Epc) as (-> & Ht).
+    rewrite Hy in Hm. destruct (i_replied y) eqn:Erp; try discriminate.
+    pose proof (hi_wf _ _ Hinv _ _ Hy) as Hwy.
+    destruct (i_msg y) eqn:Em.
+    + destruct (wf_msg _ _ Hwy Em) as (Hr0 & Hc0).
+      pose proof (Hq (HRecv a) eq_refl) as H1. cbn [hstep] in H1. rewrite Hy in H1. unfold step_recv in H1.
+      rewrite Hc0, Em, Hr0 in H1. discriminate.
+    + unfold told in Ht. rewrite Em in Ht. cbn in Ht.
+      pose proof (wf_callers _ _ Hwy) as Hcl.
+      destruct (callers (i_sd y)) as [|p r] eqn:Ec; [discriminate Hcl|].
+      destruct (match p with SDone => true | _ => false end) eqn:Ed.
+      * pose proof (Hq (HReply a) eq_refl) as H1. cbn [hstep] in H1. rewrite Hy in H1. unfold step_reply, caller_pc in H1.
+        rewrite Ht, Erp, Ec in H1. cbn in H1. destruct p; discriminate.
+      * pose proof (Hq (HSd a (SStep 0)) eq_refl) as H1. cbn [hstep] in H1. rewrite Hy in H1. unfold step_sd in H1.
+        cbn [sd_gate] in H1. rewrite Ht in H1. cbn [step] in H1. rewrite Ec in H1. cbn [nth_error] in H1.
+        destruct p; cbn in H1; try discriminate; destruct (removes_path y (SStep 0)); try discriminate;
+          destruct (gC (i_sd y) <=? 0)%Z; discriminate.
+  - discriminate.
+  - destruct (path s); discriminate.
+Qed.
+
+(** ... and afterwards the control socket answers for the successor: when nothing can move, a connect to the path reaches
+    the newest instance *)
+Lemma ctl_successor_answers n s :
+  hreachable hrepaired n s -> hquiescent hrepaired s -> serves s (pred (length (insts s))) = true.
+Proof.
+  intros Hr Hq. apply hinv_reachable in Hr. pose proof (hinv_len _ _ Hr) as Hlen.
+  destruct (nth_error (insts s) (pred (length (insts s)))) as [x|] eqn:Hx; [|apply nth_error_None in Hx; lia].
+  pose proof (quiescent_newest_running _ _ _ Hr Hq Hx) as Hrun.
+  pose proof (hi_wf _ _ Hr _ _ Hx) as Hw. pose proof (hi_last _ _ Hr _ Hx) as Ht.
+  assert (Hc : i_ctl x = TBound).
+  { destruct (i_ctl x) eqn:Ec; auto; exfalso.
+    - apply (wf_run _ _ Hw Hrun). exact Ec.
+    - apply (wf_nsp _ _ Hw). exact Ec.
+    - pose proof (init_sent_recv _ _ Hw (wf_closed _ _ Hw Ec)) as Hrc. unfold told in Ht. rewrite Hrc, orb_true_r in Ht. discriminate. }
+  unfold serves. rewrite (hi_served _ _ Hr _ Hx Hc), Hx, Hc, Nat.eqb_refl. reflexivity.
+Qed.
+
+(** ... and keeps answering: no step of anybody takes the path away from the newest instance (until a next one is started and
+    tells it to shut down) *)
+Lemma nth_set_inst s i x k : nth_error (insts (set_inst s i x)) k =
+  if Nat.eqb i k then (match nth_error (insts s) i with Some _ => Some x | None => None end) else nth_error (insts s) k.
+Proof. cbn. apply nth_error_upd. Qed.
+
+Lemma keeps_other s i x' k x : nth_error (insts s) k = Some x -> i_ctl x = TBound ->
+  (forall x0, nth_error (insts s) i = Some x0 -> i = k -> i_ctl x' = TBound) ->
+  exists x1, nth_error (insts (set_inst s i x')) k = Some x1 /\ i_ctl x1 = TBound.
+Proof.
+  intros Hx Hc H. rewrite nth_set_inst. destruct (Nat.eqb_spec i k) as [E|E].
+  - subst i. rewrite Hx. eexists; split; [reflexivity|]. eapply H; eauto.
+  - eauto.
+Qed.
+
+Lemma hstep_keeps_bound n s lb s' k x :
+  hinv n s -> hstep hrepaired s lb = Some s' -> lb <> HStart ->
+  nth_error (insts s) k = Some x -> i_ctl x = TBound -> S k = length (insts s) ->
+  length (insts s') = length (insts s) /\ exists x', nth_error (insts s') k = Some x' /\ i_ctl x' = TBound.
+Proof.
+  intros Hinv H Hns Hx Hc Hk. pose proof (hi_wf _ _ Hinv _ _ Hx) as Hw.
+  assert (Hrun : i_pc x = PRunning) by (apply (wf_ctl _ _ Hw); rewrite Hc; discriminate).
+  assert (Htold : told x = false) by (apply (hi_last _ _ Hinv x); replace (pred (length (insts s))) with k by lia; exact Hx).
+  destruct lb; try contradiction; cbn [hstep] in H.
+  - (* HMain: only the newest instance can be inside execute(), and it is not *)
+    exfalso. destruct (nth_error (insts s) i) as [y|] eqn:Hy; try discriminate.
+    assert (Hnr : i_pc y <> PRunning) by (intros E; unfold step_main in H; rewrite E in H; discriminate).
+    destruct (newest_of_not_running _ _ _ _ Hinv Hy Hnr) as (Hl & _). assert (i = k) by lia. subst i.
+    rewrite Hx in Hy. inversion Hy; subst. contradiction.
+  - destruct (nth_error (insts s) i); discriminate.
+  - destruct (nth_error (insts s) i) as [y|] eqn:Hy; try discriminate. unfold step_ctl in H.
+    destruct (i_ctl y) eqn:Ecy; try discriminate.
+    + exfalso. apply (wf_nsp _ _ (hi_wf _ _ Hinv _ _ Hy)). exact Ecy.
+    + destruct (init_sent (i_sd y)) eqn:Ei; try discriminate. inversion H; subst s'; clear H. cbn [insts set_inst with_insts].
+      split; [apply upd_length|]. apply (keeps_other _ _ _ k x); auto. intros x0 H0 E. subst i. exfalso. rewrite Hx in Hy. inversion Hy; subst y.
+      pose proof (init_sent_recv _ _ Hw Ei) as Hr. unfold told in Htold. rewrite Hr, orb_true_r in Htold. discriminate.
+  - destruct (nth_error (insts s) i) as [y|] eqn:Hy; try discriminate. unfold step_recv in H.
+    destruct (i_ctl y) eqn:Ecy; try discriminate. destruct (i_msg y && negb (i_recv y)); try discriminate.
+    inversion H; subst s'; clear H. split; [apply upd_length|]. apply (keeps_other _ _ _ k x); auto.
+  - destruct (nth_error (insts s) i) as [y|] eqn:Hy; try discriminate. unfold step_reply in H.
+    destruct (i_recv y && negb (i_replied y)); try discriminate. destruct (caller_pc y) as [[]|]; try discriminate.
+    inversion H; subst s'; clear H. split; [apply upd_length|]. apply (keeps_other _ _ _ k x); auto.
+    intros x0 H0 E. subst i. rewrite Hx in Hy. inversion Hy; subst. exact Hc.
+  - destruct (nth_error (insts s) i) as [y|] eqn:Hy; try discriminate. unfold step_sd in H.
+    destruct (sd_gate y lb); try discriminate. destruct (step repaired (i_sd y) lb); try discriminate.
+    destruct (removes_path y lb); inversion H; subst s'; clear H; (split; [apply upd_length|]); apply (keeps_other _ _ _ k x); auto;
+      intros x0 H0 E; subst i; rewrite Hx in Hy; inversion Hy; subst; exact Hc.
+  - destruct (nth_error (insts s) i) as [y|] eqn:Hy; try discriminate. unfold step_req in H.
+    destruct (conn_running y c); try discriminate. destruct (k_st (kget c (i_ka y))); try discriminate.
+    inversion H; subst s'; clear H. split; [apply upd_length|]. apply (keeps_other _ _ _ k x); auto.
+    intros x0 H0 E. subst i. rewrite Hx in Hy. inversion Hy; subst. exact Hc.
+  - destruct (nth_error (insts s) i) as [y|] eqn:Hy; try discriminate. unfold step_resp in H.
+    destruct (conn_running y c); try discriminate. destruct (k_st (kget c (i_ka y))); try discriminate.
+    inversion H; subst s'; clear H. split; [apply upd_length|]. apply (keeps_other _ _ _ k x); auto.
+    intros x0 H0 E. subst i. rewrite Hx in Hy. inversion Hy; subst. exact Hc.
+  - destruct (nth_error (insts s) i) as [y|] eqn:Hy; try discriminate. unfold step_kaend in H.
+    destruct (conn_running y c); try discriminate.
+    destruct (k_st (kget c (i_ka y))); try discriminate; inversion H; subst s'; clear H; (split; [apply upd_length|]);
+      apply (keeps_other _ _ _ k x); auto; intros x0 H0 E; subst i; rewrite Hx in Hy; inversion Hy; subst; exact Hc.
+  - destruct (nth_error (insts s) i) as [y|] eqn:Hy; try discriminate.
+    inversion H; subst s'; clear H. split; [apply upd_length|]. apply (keeps_other _ _ _ k x); auto.
+    intros x0 H0 E. subst i. rewrite Hx in Hy. inversion Hy; subst. exact Hc.
+  - destruct (nth_error (insts s) i) as [y|] eqn:Hy; try discriminate. unfold step_wpoll in H.
+    destruct (nth_error (i_lw y) w) as [[]|]; try discriminate. destruct (finished (i_sd y)); try discriminate.
+    inversion H; subst s'; clear H. split; [apply upd_length|]. apply (keeps_other _ _ _ k x); auto.
+    intros x0 H0 E. subst i. rewrite Hx in Hy. inversion Hy; subst. exact Hc.
+Qed.
+
+Lemma hlabel_eq_start lb : {lb = HStart} + {lb <> HStart}.
+Proof. destruct lb; try (right; discriminate). left; reflexivity. Qed.
+
+Lemma path_stable n s k lb s' :
+  hreachable hrepaired n s -> serves s k = true -> S k = length (insts s) -> hstep hrepaired s lb = Some s' -> serves s' k = true.
+Proof.
+  intros Hr Hs Hk H. apply hinv_reachable in Hr. pose proof (hinv_step _ _ _ _ Hr H) as Hinv'.
+  unfold serves in Hs. destruct (path s) as [k0|] eqn:Hp; try discriminate.
+  destruct (nth_error (insts s) k) as [x|] eqn:Hx; try discriminate.
+  apply andb_true_iff in Hs as (E & Hc). apply Nat.eqb_eq in E. subst k0.
+  assert (Hcx : i_ctl x = TBound) by (destruct (i_ctl x); auto; discriminate).
+  destruct (hlabel_eq_start lb) as [->|Hns].
+  - cbn [hstep] in H. destruct (nth_error (insts s) (pred (length (insts s)))) as [z|]; try discriminate.
+    destruct (is_running z); try discriminate. inversion H; subst s'. unfold serves. cbn [path insts with_insts].
+    rewrite Hp, nth_error_app1 by (apply nth_error_lt in Hx; exact Hx). rewrite Hx, Hcx, Nat.eqb_refl. reflexivity.
+  - destruct (hstep_keeps_bound _ _ _ _ _ _ Hr H Hns Hx Hcx Hk) as (Hlen & x' & Hx' & Hc').
+    assert (Hk' : k = pred (length (insts s'))) by lia.
+    assert (Hp' : path s' = Some k).
+    { rewrite Hk'. apply (hi_served _ _ Hinv' x'); [rewrite <- Hk'; exact Hx'|exact Hc']. }
+    unfold serves. rewrite Hp', Hx', Hc', Nat.eqb_refl. reflexivity.
+Qed.
+
+(** ** kvarn 0.6.3 as found *)
 Lemma hreachable_run v n s sched s' : hreachable v n s -> hrun v s sched = Some s' -> hreachable v n s'.
 Proof.
   revert s; induction sched as [|lb r IH]; intros s Hr H; cbn [hrun] in H.
@@ -496,13 +1074,22 @@ Proof.
   - destruct (hstep v s lb) as [s1|] eqn:E; try discriminate. apply (IH s1); [eapply hreach_step; eauto|exact H].
 Qed.
 
+Lemma hreachable_drain v n fuel s ok : hreachable v n s -> hreachable v n (fst (hdrain v fuel s ok)).
+Proof.
+  revert s ok; induction fuel as [|f IH]; intros s ok Hr; cbn [hdrain]; auto.
+  destruct (find (henabledb v s) (all_labels 0 (insts s))) as [lb|]; auto.
+  destruct (hstep v s lb) as [s1|] eqn:E; auto. apply IH. eapply hreach_step; eauto.
+Qed.
+
+(** the accept task binds, the start-up program goes on to the handover message: a schedule after which socket 0 is
+    bound by nobody *)
 Definition sched_unbound : list hlabel :=
   [HStart; HMain 1; HMain 1; HRecv 0; HSd 0 (SStep 0); HSd 0 (SStep 0); HSd 0 (SStep 0); HSd 0 (SStep 0);
    HSd 0 (LStep 0); HSd 0 (LStep 0); HSd 0 (LStep 0); HSd 0 (LStep 0)].
 
 Lemma always_bound_today_refuted :
   exists s, hreachable htoday 1 s /\ port_served s 0 = false /\
-            exists x y, nth_error (insts s) 0 = Some x /\ closed x 0 /\ nth_error (insts s) 1 = Some y /\ nth 0 (i_bnd y) false = false.
+            exists x y, nth_error (insts s) 0 = Some x /\ closed x 0 /\ nth_error (insts s) 1 = Some y /\ nth 0 (i_bnd y) BNone = BNone.
 Proof.
   destruct (hrun htoday (hinit 1) sched_unbound) as [s|] eqn:E; [|vm_compute in E; discriminate].
   exists s. split; [eapply hreachable_run; [apply hreach_init|exact E]|].
@@ -510,23 +1097,53 @@ Proof.
   do 2 eexists. split; [reflexivity|]. split; [eexists; split; reflexivity|]. split; reflexivity.
 Qed.
 
+(** after the first repair only: [execute] returns while its control-socket task has not bound the path yet.  An instance
+    started right then finds no socket ("NotFound"), goes on as if there were nobody to take over from, and the older instance
+    binds the path afterwards: two instances listen on the port for ever, the control socket is answered by the OLDER one, which
+    is never told to shut down — nothing can move any more *)
+Definition sched_eager : list hlabel :=
+  [HStart; HMain 1; HMain 1; HMain 1; HRecv 0; HSd 0 (SStep 0); HSd 0 (SStep 0); HSd 0 (SStep 0); HSd 0 (SStep 0); HReply 0;
+   HMain 1; HMain 1; HStart; HMain 2; HMain 2; HMain 2; HMain 2; HCtl 1; HCtl 2].
+
+Lemma eager_start_refuted :
+  exists s, hreachable hbound 1 s /\ hquiescentb hbound s = true /\ length (insts s) = 3 /\
+            serves s 1 = true /\ serves s 2 = false /\
+            exists x y, nth_error (insts s) 1 = Some x /\ nth_error (insts s) 2 = Some y /\
+                        listening x 0 = true /\ listening y 0 = true /\ i_pc x = PRunning /\ i_pc y = PRunning /\
+                        i_msg x = false /\ i_recv x = false /\ finished (i_sd x) = false.
+Proof.
+  destruct (hrun hbound (hinit 1) sched_eager) as [s0|] eqn:E; [|vm_compute in E; discriminate].
+  exists (fst (hdrain hbound 400 s0 true)).
+  split; [apply hreachable_drain; eapply hreachable_run; [apply hreach_init|exact E]|].
+  vm_compute in E. inversion E; subst s0; clear E. vm_compute.
+  repeat split. do 2 eexists. repeat split.
+Qed.
+
 (** ** All clauses together, for a chain of any length *)
 Lemma chain n s :
   hreachable hrepaired n s ->
   (forall j, j < n -> port_served s j = true) /\
   (forall i x, nth_error (insts s) i = Some x ->
+     ((i_msg x || i_recv x) = true -> exists y, nth_error (insts s) (S i) = Some y /\ all_bnd n y) /\
      (forall j, closed x j -> exists y, nth_error (insts s) (S i) = Some y /\ all_bnd n y) /\
      (finished (i_sd x) = true -> all_done (i_sd x) = true /\ forallb (fun l => negb (l_bound l)) (ls (i_sd x)) = true) /\
-     (i_recv x = true -> hquiescent hrepaired s -> completed (i_sd x) = true)) /\
+     (forall c, k_after (kget c (i_ka x)) <= 1) /\
+     (i_recv x = true -> hquiescent hrepaired s -> completed (i_sd x) = true /\ forallb (fun w => w) (i_lw x) = true)) /\
   (forall i, serves s i = true ->
      S i = length (insts s) \/
-     (S (S i) = length (insts s) /\ exists y, nth_error (insts s) (S i) = Some y /\ i_pc y <> PRunning)).
+     (S (S i) = length (insts s) /\ exists y, nth_error (insts s) (S i) = Some y /\ i_pc y <> PRunning)) /\
+  (hquiescent hrepaired s -> serves s (pred (length (insts s))) = true) /\
+  (forall k lb s', serves s k = true -> S k = length (insts s) -> hstep hrepaired s lb = Some s' -> serves s' k = true).
 Proof.
-  intros Hr. split; [|split].
+  intros Hr. split; [|split; [|split; [|split]]].
   - intros j Hj. eapply always_bound; eauto.
-  - intros i x Hx. split; [|split].
+  - intros i x Hx. split; [|split; [|split; [|split]]].
+    + intros Ht. eapply told_after_bound; eauto.
     + intros j Hc. eapply successor_binds_first; eauto.
     + intros Hf. eapply handover_drains_safe; eauto.
+    + intros c. eapply keepalive_one_more; eauto.
     + intros Hrecv Hq. eapply handover_no_hang; eauto.
   - intros i Hs. eapply ctl_successor_only; eauto.
+  - intros Hq. eapply ctl_successor_answers; eauto.
+  - intros k lb s' Hs Hk H. eapply path_stable; eauto.
 Qed.
